@@ -9,11 +9,11 @@
    [stepJ_exact] says  stepJ ... = Ok (val_step ..., tr')  with  t_missing tr' = t_missing tr ++ ms_step ...  up to a permutation;
    induction on the fuel gives [decJ_exact].  Order independence, unknown-field tolerance and "optional / defaulted fields are
    never reported" are then properties of the three specification functions. *)
-From Coq Require Import List Bool Arith ZArith NArith Lia Permutation.
+From Coq Require Import List Bool Arith ZArith NArith Lia Permutation Sorted.
 From Coq.Strings Require Import Byte.
 From GR Require Import Base.Bytes Base.Res Base.Dec Codec.Schema Codec.Doc Codec.Escape Codec.Utf8 Codec.Json Codec.Tracker
   Codec.Decode.
-From GR Require Import Proofs.Ror2NoPanic.
+From GR Require Import Proofs.Ror2NoPanic Proofs.SortProofs.
 Import ListNotations.
 
 (* ---------------------------------------------------------------------------------------------------------------------------
@@ -374,6 +374,10 @@ End Spec.
 Definition single (key : bytes) (v : value) : bytes -> option value :=
   fun k' => if bytes_eqb key k' then Some v else None.
 
+Definition keyp (key : bytes) : field -> bool := fun fd => bytes_eqb key (f_name fd).
+Lemma field_of_eq e n k : field_of e n k = find (keyp k) (fields_of e n).
+Proof. reflexivity. Qed.
+
 Lemma names_disjoint (X Y : list field) fd1 fd2 :
   NoDup (map f_name (X ++ Y)) -> In fd1 X -> In fd2 Y -> f_name fd1 <> f_name fd2.
 Proof.
@@ -418,8 +422,6 @@ Section Umf.
     | _, _ => Err EType
     end.
   Proof. reflexivity. Qed.
-
-  Definition keyp (key : bytes) : field -> bool := fun fd => bytes_eqb key (f_name fd).
 
   Definition umf_res (k n : nat) (key : bytes) (jd : jdoc) (rv : value) (tr : tracker) : res (bool * value * tracker) :=
     match find (keyp key) (all_fields e k n) with
@@ -478,7 +480,8 @@ Section Umf.
   Lemma single_none_of_find key v (l : list field) :
     find (keyp key) l = None -> forall fd, In fd l -> single key v (f_name fd) = None.
   Proof.
-    intros Hf fd Hin. unfold single. rewrite (proj1 (find_none_iff _ _) Hf fd Hin). reflexivity.
+    intros Hf fd Hin. unfold single. pose proof (proj1 (find_none_iff _ _) Hf fd Hin) as H. unfold keyp in H.
+    rewrite H. reflexivity.
   Qed.
 
   Section TryIncs.
@@ -512,8 +515,9 @@ Section Umf.
       cbn [try_incsK]. fold (try_incsK rec). rewrite (Hrec i iv Hci Hs Hndi). unfold umf_res. rewrite find_app.
       destruct (find (keyp key) (all_fields e k' i)) as [fd|] eqn:Ef.
       - destruct (DJ false (f_ty fd) jd tr) as [[v tr']|x|]; [|reflexivity|reflexivity].
-        cbn [bind]. rewrite set_nth_app_len. cbn [map2]. do 3 f_equal.
-        symmetry. apply (map2_id_F2 _ (shaped e k')); [exact HF|]. intros i2 iv2 Hi2 Hs2. apply rec_upd_id; [|exact Hs2].
+        cbn [bind]. rewrite set_nth_app_len. cbn [map2].
+        assert (Eid : map2 (fun i0 iv0 => rec_upd e k' i0 (single key v) iv0) is vs = vs); [|rewrite Eid; reflexivity].
+        apply (map2_id_F2 _ (shaped e k')); [exact HF|]. intros i2 iv2 Hi2 Hs2. apply rec_upd_id; [|exact Hs2].
         intros fd2 Hfd2. unfold single. destruct (bytes_eqb key (f_name fd2)) eqn:E2; [|reflexivity]. exfalso.
         apply find_some in Ef as [Hin Ek]. unfold keyp in Ek. apply bytes_eqb_eq in Ek, E2.
         apply (names_disjoint _ _ fd fd2 Hnd Hin); [|congruence].
@@ -545,7 +549,8 @@ Section Umf.
     cbn [length app] in T. rewrite T. clear T. rewrite find_app.
     destruct (find (keyp key) (flat_map (all_fields e k) incs)) as [fd|] eqn:Ef.
     - destruct (DJ false (f_ty fd) jd tr) as [[v tr']|x|]; [|reflexivity|reflexivity].
-      cbn [bind]. do 3 f_equal. symmetry.
+      cbn [bind app].
+      assert (Eid : map2 (slot_upd (single key v)) fs fvs = fvs); [|rewrite Eid; reflexivity].
       apply (map2_id_F2 _ (fun _ _ => True)); [apply Forall2_same_length; symmetry; exact Hlen|].
       intros fd2 ov2 Hin _. unfold slot_upd, single. destruct (bytes_eqb key (f_name fd2)) eqn:E2; [|reflexivity]. exfalso.
       apply find_some in Ef as [Hin1 Ek]. unfold keyp in Ek. apply bytes_eqb_eq in Ek, E2.
@@ -553,7 +558,8 @@ Section Umf.
     - destruct (find (keyp key) fs) as [fd|] eqn:Eo.
       + destruct (DJ false (f_ty fd) jd tr) as [[v tr']|x|] eqn:Ed.
         * destruct (own_set_gen key v fd fs fvs 0 Hndo Hlen Eo) as [j [H1 [H2 H3]]]. simpl in H1.
-          rewrite H1, H2, Ed. cbn [bind]. rewrite H3. do 3 f_equal. symmetry.
+          rewrite H1, H2, Ed. cbn [bind]. rewrite H3.
+          assert (Eid : map2 (fun i0 iv0 => rec_upd e k i0 (single key v) iv0) incs ivs = ivs); [|rewrite Eid; reflexivity].
           apply (map2_id_F2 _ (shaped e k)); [exact HF|]. intros i2 iv2 Hi2 Hs2. apply rec_upd_id; [|exact Hs2].
           intros fd2 Hfd2. apply (single_none_of_find key v _ Ef). apply in_flat_map. exists i2. split; assumption.
         * destruct (own_set_gen key dummy_value fd fs fvs 0 Hndo Hlen Eo) as [j [H1 [H2 _]]]. simpl in H1.
@@ -563,3 +569,1400 @@ Section Umf.
       + rewrite (index_of_none key fs 0 Eo). reflexivity.
   Qed.
 End Umf.
+
+(* ---------------------------------------------------------------------------------------------------------------------------
+   E. pure facts about the specification functions
+   --------------------------------------------------------------------------------------------------------------------------- *)
+Lemma bytes_eqb_sym a b : bytes_eqb a b = bytes_eqb b a.
+Proof.
+  destruct (bytes_eqb a b) eqn:E1, (bytes_eqb b a) eqn:E2; try reflexivity.
+  - apply bytes_eqb_eq in E1. subst. rewrite bytes_eqb_refl in E2. discriminate.
+  - apply bytes_eqb_eq in E2. subst. rewrite bytes_eqb_refl in E1. discriminate.
+Qed.
+
+Lemma map2_ext {A B C} (f g : A -> B -> C) l1 l2 : (forall a b, f a b = g a b) -> map2 f l1 l2 = map2 g l1 l2.
+Proof. intros H. revert l2. induction l1 as [|a l1 IH]; intros [|b l2]; simpl; try reflexivity. rewrite H, IH. reflexivity. Qed.
+
+Definition orelse (l2 l1 : bytes -> option value) : bytes -> option value :=
+  fun key => match l2 key with Some v => Some v | None => l1 key end.
+
+Lemma rec_upd_compose e : forall k n l1 l2 rv,
+  rec_upd e k n l2 (rec_upd e k n l1 rv) = rec_upd e k n (orelse l2 l1) rv.
+Proof.
+  induction k as [|k IH]; intros n l1 l2 rv; [reflexivity|]. simpl.
+  destruct (lookup e n) as [[incs fs|? ?]|] eqn:El; try reflexivity.
+  destruct rv as [| | | | | | | | |ivs fvs| | |]; try reflexivity; simpl; rewrite ?El; try reflexivity.
+  rewrite !map2_map2. f_equal.
+  - apply map2_ext. intros i iv. apply IH.
+  - apply map2_ext. intros fd ov. unfold slot_upd, orelse. destruct (l2 (f_name fd)); reflexivity.
+Qed.
+
+Lemma rec_upd_ext e : forall k n l1 l2 rv, (forall key, l1 key = l2 key) -> rec_upd e k n l1 rv = rec_upd e k n l2 rv.
+Proof.
+  induction k as [|k IH]; intros n l1 l2 rv H; [reflexivity|]. simpl.
+  destruct (lookup e n) as [[incs fs|? ?]|]; try reflexivity.
+  destruct rv as [| | | | | | | | |ivs fvs| | |]; try reflexivity. f_equal.
+  - apply map2_ext. intros i iv. apply IH. exact H.
+  - apply map2_ext. intros fd ov. unfold slot_upd. rewrite H. reflexivity.
+Qed.
+
+Lemma jfind_none k es : ~ In k (map fst es) -> jfind k es = None.
+Proof.
+  induction es as [|kx r IH]; simpl; intros H; [reflexivity|].
+  destruct (bytes_eqb k (fst kx)) eqn:E; [apply bytes_eqb_eq in E; exfalso; apply H; left; congruence|].
+  apply IH. intros Hin. apply H. right; exact Hin.
+Qed.
+
+Lemma present_none k es : ~ In k (map fst es) -> present es k = None.
+Proof. intros H. unfold present. rewrite (jfind_none k es H). reflexivity. Qed.
+
+Lemma present_cons k x r name :
+  present ((k, x) :: r) name = if bytes_eqb name k then (if is_null x then None else Some x) else present r name.
+Proof. unfold present. simpl. destruct (bytes_eqb name k); reflexivity. Qed.
+
+Lemma present_in es name x : present es name = Some x -> In (name, x) es /\ is_null x = false.
+Proof.
+  unfold present. induction es as [|kx r IH]; simpl; [discriminate|].
+  destruct (bytes_eqb name (fst kx)) eqn:E.
+  - destruct (is_null (snd kx)) eqn:En; [discriminate|]. intros H. injection H as <-. apply bytes_eqb_eq in E. subst name.
+    split; [left; destruct kx; reflexivity|exact En].
+  - intros H. destruct (IH H) as [H1 H2]. split; [right; exact H1|exact H2].
+Qed.
+
+Lemma in_present es k x : NoDup (map fst es) -> In (k, x) es -> is_null x = false -> present es k = Some x.
+Proof.
+  induction es as [|kx r IH]; simpl; intros Hnd Hin Hn; [contradiction|].
+  inversion Hnd as [|? ? Hk Hnd']; subst. destruct kx as [k0 x0]. rewrite present_cons. destruct Hin as [E|Hin].
+  - injection E as -> ->. rewrite bytes_eqb_refl, Hn. reflexivity.
+  - destruct (bytes_eqb k k0) eqn:E; [|apply IH; assumption].
+    apply bytes_eqb_eq in E. subst k0. exfalso. apply Hk. simpl. apply (in_map fst) in Hin. exact Hin.
+Qed.
+
+Lemma remove_bytes_filter k rem : remove_bytes k rem = filter (fun f => negb (bytes_eqb k f)) rem.
+Proof. induction rem as [|a rem IH]; simpl; [reflexivity|]. destruct (bytes_eqb k a); simpl; rewrite IH; reflexivity. Qed.
+
+Definition absent (es : list (bytes * jdoc)) (f : bytes) : bool := match present es f with None => true | Some _ => false end.
+
+Lemma map_put_new k v : forall acc, ~ In k (map fst acc) -> map_put k v acc = acc ++ [(k, v)].
+Proof.
+  induction acc as [|[k' v'] acc IH]; simpl; intros H; [reflexivity|].
+  destruct (bytes_eqb k k') eqn:E; [apply bytes_eqb_eq in E; exfalso; apply H; left; congruence|].
+  rewrite IH; [reflexivity|]. intros Hin. apply H. right; exact Hin.
+Qed.
+
+Lemma required_fields_all e : forall k n,
+  required_fields e k n = map f_name (filter (fun fd => is_required (f_opt fd)) (all_fields e k n)).
+Proof.
+  induction k as [|k IH]; intros n; [reflexivity|]. simpl.
+  destruct (lookup e n) as [[incs fs|? ?]|]; try reflexivity.
+  rewrite filter_app, map_app. f_equal.
+  induction incs as [|i incs IHi]; simpl; [reflexivity|]. rewrite filter_app, map_app, IH, IHi. reflexivity.
+Qed.
+
+Lemma zero_value_shaped e : forall k n, inc_closed e k n = true -> shaped e k n (zero_value e (S k) (TRef n)).
+Proof.
+  induction k as [|k IH]; intros n Hc; [discriminate|]. simpl in Hc. cbn [zero_value]. cbn [shaped].
+  destruct (lookup e n) as [[incs fs|? ?]|]; try discriminate. split; [apply map_length|].
+  induction incs as [|i incs IHi]; simpl in *; constructor.
+  - apply andb_true_iff in Hc as [Hc _]. apply IH. exact Hc.
+  - apply IHi. apply andb_true_iff in Hc as [_ Hc]. exact Hc.
+Qed.
+
+(* the join of the fields of a record with the entries of an object, taken in either order *)
+Section Join.
+  Variable MS : ty -> jdoc -> list seg -> list bytes.
+  Variable sc : list seg.
+  Variable FL : list field.
+  Hypothesis HndF : NoDup (map f_name FL).
+
+  Definition joinA (es : list (bytes * jdoc)) (fd : field) : list bytes :=
+    match present es (f_name fd) with Some x => MS (f_ty fd) x (sc ++ [SKey (f_name fd)]) | None => [] end.
+  Definition joinB (es : list (bytes * jdoc)) (fd : field) : list bytes :=
+    match present es (f_name fd) with
+    | Some _ => []
+    | None => if is_required (f_opt fd) then [scope_string (sc ++ [SKey (f_name fd)])] else []
+    end.
+  Definition joinE (kx : bytes * jdoc) : list bytes :=
+    if is_null (snd kx) then []
+    else match find (keyp (fst kx)) FL with
+         | Some fd => MS (f_ty fd) (snd kx) (sc ++ [SKey (fst kx)])
+         | None => []
+         end.
+
+  Lemma joinB_eq es :
+    flat_map (joinB es) FL =
+    map (fun f => scope_string (sc ++ [SKey f])) (filter (absent es) (map f_name (filter (fun fd => is_required (f_opt fd)) FL))).
+  Proof.
+    clear HndF. induction FL as [|fd l IH]; simpl; [reflexivity|]. unfold joinB at 1.
+    destruct (is_required (f_opt fd)) eqn:Er; simpl.
+    - unfold absent at 1. destruct (present es (f_name fd)); simpl; rewrite IH; reflexivity.
+    - destruct (present es (f_name fd)); simpl; exact IH.
+  Qed.
+
+  Lemma join_move (A A' : field -> list bytes) k fd0 : forall l,
+    NoDup (map f_name l) -> find (keyp k) l = Some fd0 ->
+    (forall fd, In fd l -> f_name fd <> k -> A' fd = A fd) ->
+    (forall fd, In fd l -> f_name fd = k -> A fd = []) ->
+    Permutation (flat_map A' l) (A' fd0 ++ flat_map A l).
+  Proof.
+    induction l as [|fd l IH]; intros Hnd Hf Hne He; [discriminate|]. simpl in *.
+    inversion Hnd as [|? ? Hn Hnd']; subst. unfold keyp at 1 in Hf.
+    destruct (bytes_eqb k (f_name fd)) eqn:E.
+    - injection Hf as <-. apply bytes_eqb_eq in E. rewrite (He fd) by auto. simpl.
+      apply Permutation_app_head. rewrite (flat_map_ext_in A' A); [reflexivity|].
+      intros fd2 Hin. apply Hne; [right; exact Hin|]. intros E2. apply Hn. rewrite <- E, <- E2. apply in_map. exact Hin.
+    - rewrite (Hne fd) by (auto; intros E2; rewrite E2, bytes_eqb_refl in E; discriminate).
+      rewrite (IH Hnd' Hf) by (intros; auto). rewrite !app_assoc. apply Permutation_app_tail. apply Permutation_app_comm.
+  Qed.
+
+  Lemma join_perm : forall es, NoDup (map fst es) -> Permutation (flat_map (joinA es) FL) (flat_map joinE es).
+  Proof.
+    induction es as [|[k x] r IH]; intros Hnd.
+    - simpl. rewrite flat_map_nil_in; [constructor|]. intros fd _. reflexivity.
+    - inversion Hnd as [|? ? Hk Hnd']; subst. simpl flat_map. unfold joinE at 1. simpl fst. simpl snd.
+      assert (Hr : forall fd, f_name fd <> k -> joinA ((k, x) :: r) fd = joinA r fd).
+      { intros fd Hne. unfold joinA. rewrite present_cons.
+        destruct (bytes_eqb (f_name fd) k) eqn:E; [apply bytes_eqb_eq in E; contradiction|reflexivity]. }
+      assert (Hk0 : forall fd, f_name fd = k -> joinA r fd = []).
+      { intros fd E. unfold joinA. rewrite E, (present_none k r Hk). reflexivity. }
+      destruct (is_null x) eqn:En.
+      + simpl. rewrite <- (IH Hnd'). rewrite (flat_map_ext_in (joinA ((k, x) :: r)) (joinA r)); [reflexivity|].
+        intros fd _. destruct (bytes_eqb (f_name fd) k) eqn:E.
+        * apply bytes_eqb_eq in E. rewrite (Hk0 fd E). unfold joinA. rewrite present_cons, E, bytes_eqb_refl, En. reflexivity.
+        * apply Hr. intros E2. rewrite E2, bytes_eqb_refl in E. discriminate.
+      + destruct (find (keyp k) FL) as [fd0|] eqn:Ef.
+        * rewrite (join_move (joinA r) (joinA ((k, x) :: r)) k fd0 FL HndF Ef); [| intros; apply Hr; assumption | intros; apply Hk0; assumption].
+          rewrite (IH Hnd'). apply Permutation_app_tail.
+          apply find_some in Ef as [_ Ek]. unfold keyp in Ek. apply bytes_eqb_eq in Ek. subst k.
+          unfold joinA. rewrite present_cons, bytes_eqb_refl, En. reflexivity.
+        * simpl. rewrite <- (IH Hnd'). rewrite (flat_map_ext_in (joinA ((k, x) :: r)) (joinA r)); [reflexivity|].
+          intros fd Hin. apply Hr. intros E. pose proof (proj1 (find_none_iff _ _) Ef fd Hin) as Hn. unfold keyp in Hn.
+          rewrite E, bytes_eqb_refl in Hn. discriminate.
+  Qed.
+End Join.
+
+(* ---------------------------------------------------------------------------------------------------------------------------
+   F. one step of the decoder, exactly
+   --------------------------------------------------------------------------------------------------------------------------- *)
+Definition keys_nonempty (es : list (bytes * jdoc)) : Prop := Forall (fun kx => fst kx <> []) es.
+
+Section StepExact.
+  Variable e : env.
+  Variables (wildcard : bytes) (ignore : nat).
+  Variable parseF : nat -> bytes -> option N.
+  Variable DJ : bool -> ty -> jdoc -> tracker -> res (value * tracker).
+  Hypothesis Hwf : wf_schema e.
+
+  Variable W : ty -> jdoc -> Prop.
+  Variable VS : ty -> jdoc -> value.
+  Variable MS : ty -> jdoc -> list seg -> list bytes.
+
+  (* what is known of the recursive call: on a well-shaped child, below the top level *)
+  Definition child_ok : Prop :=
+    forall t x tr, W t x -> t_scope tr <> [] -> t_scope tr <> [SKey []] ->
+      exists tr', DJ false t x tr = Ok (VS t x, tr') /\ t_scope tr' = t_scope tr /\
+                  Permutation (t_missing tr') (t_missing tr ++ MS t x (t_scope tr)).
+  Hypothesis HDJ : child_ok.
+
+  Notation goJrec := (goJrec e wildcard ps_empty ignore DJ).
+  Notation goJmap := (goJmap wildcard ps_empty ignore DJ).
+  Notation goJuni := (goJuni wildcard ps_empty ignore DJ).
+  Notation K := (S (length e)).
+
+  Lemma child_key t x tr k :
+    W t x -> (t_scope tr = [] -> k <> []) ->
+    exists tr2, DJ false t x (push (SKey k) tr) = Ok (VS t x, tr2) /\ t_scope (pop tr2) = t_scope tr /\
+                Permutation (t_missing (pop tr2)) (t_missing tr ++ MS t x (t_scope tr ++ [SKey k])).
+  Proof.
+    intros Hw Hk. destruct (HDJ t x (push (SKey k) tr) Hw) as [tr2 [H1 [H2 H3]]].
+    - simpl. intros E. apply app_eq_nil in E as [_ E]. discriminate.
+    - simpl. destruct (t_scope tr) as [|s r] eqn:Es.
+      + simpl. intros E. injection E as E. apply Hk; [reflexivity|exact E].
+      + simpl. intros E. injection E as _ E. apply app_eq_nil in E as [_ E]. discriminate.
+    - exists tr2. split; [exact H1|]. split; [apply (pop_push_scope (SKey k)); exact H2|exact H3].
+  Qed.
+
+  Lemma child_idx t x tr i :
+    W t x ->
+    exists tr2, DJ false t x (enter_array i tr) = Ok (VS t x, tr2) /\ t_scope (pop tr2) = t_scope tr /\
+                Permutation (t_missing (pop tr2)) (t_missing tr ++ MS t x (t_scope tr ++ [SIdx i])).
+  Proof.
+    intros Hw. unfold enter_array. destruct (HDJ t x (push (SIdx i) tr) Hw) as [tr2 [H1 [H2 H3]]].
+    - simpl. intros E. apply app_eq_nil in E as [_ E]. discriminate.
+    - simpl. destruct (t_scope tr) as [|s r] eqn:Es.
+      + simpl. discriminate.
+      + simpl. intros E. injection E as _ E. apply app_eq_nil in E as [_ E]. discriminate.
+    - exists tr2. split; [exact H1|]. split; [apply (pop_push_scope (SIdx i)); exact H2|exact H3].
+  Qed.
+
+  (* ---- arrays ---- *)
+  Lemma goJarr_cons t' x r i acc tr :
+    goJarr DJ t' (x :: r) i acc tr =
+    do rr <- DJ false t' x (enter_array i tr); let '(v, tr') := rr in goJarr DJ t' r (S i) (v :: acc) (pop tr').
+  Proof. reflexivity. Qed.
+
+  Lemma goJarr_exact t' : forall items i acc tr, Forall (W t') items ->
+    exists tr', goJarr DJ t' items i acc tr = Ok (VArr (rev acc ++ map (VS t') items), tr') /\ t_scope tr' = t_scope tr /\
+                Permutation (t_missing tr') (t_missing tr ++ ms_arr MS t' (t_scope tr) i items).
+  Proof.
+    induction items as [|x r IH]; intros i acc tr HW.
+    - exists tr. simpl. rewrite !app_nil_r. auto.
+    - inversion HW as [|? ? Hx Hr]; subst. rewrite goJarr_cons.
+      destruct (child_idx t' x tr i Hx) as [tr2 [H1 [H2 H3]]]. rewrite H1. cbn [bind].
+      destruct (IH (S i) (VS t' x :: acc) (pop tr2) Hr) as [tr' [G1 [G2 G3]]].
+      exists tr'. split; [rewrite G1; simpl; rewrite <- app_assoc; reflexivity|]. split; [congruence|].
+      rewrite G3, H2, H3. simpl. rewrite <- app_assoc. reflexivity.
+  Qed.
+
+  (* ---- maps ---- *)
+  Lemma goJmap_cons t' k x r acc tr :
+    goJmap t' ((k, x) :: r) acc tr =
+    if is_null x then goJmap t' r acc tr
+    else do tr1 <- enter_map wildcard ps_empty ignore k tr;
+         do rr <- DJ false t' x tr1;
+         let '(v, tr2) := rr in goJmap t' r (map_put k v acc) (pop tr2).
+  Proof. destruct x; reflexivity. Qed.
+
+  Definition nonnull (kx : bytes * jdoc) : bool := negb (is_null (snd kx)).
+
+  Lemma goJmap_exact t' : forall es acc tr,
+    NoDup (map fst es) -> (forall k, In k (map fst es) -> ~ In k (map fst acc)) ->
+    Forall (fun kx => is_null (snd kx) = false -> W t' (snd kx)) es ->
+    (t_scope tr = [] -> keys_nonempty es) ->
+    exists tr', goJmap t' es acc tr
+                = Ok (VMap (sort_entries (acc ++ map (fun kx => (fst kx, VS t' (snd kx))) (filter nonnull es))), tr') /\
+                t_scope tr' = t_scope tr /\
+                Permutation (t_missing tr')
+                  (t_missing tr ++ flat_map (fun kx => if is_null (snd kx) then [] else MS t' (snd kx) (t_scope tr ++ [SKey (fst kx)])) es).
+  Proof.
+    induction es as [|[k x] r IH]; intros acc tr Hnd Hdis HW Hke.
+    - exists tr. simpl. rewrite !app_nil_r. auto.
+    - inversion Hnd as [|? ? Hk Hnd']; subst. inversion HW as [|? ? Hx Hr]; subst. rewrite goJmap_cons.
+      assert (Hke' : forall tr0, t_scope tr0 = t_scope tr -> t_scope tr0 = [] -> keys_nonempty r).
+      { intros tr0 E E0. rewrite E in E0. specialize (Hke E0). inversion Hke; assumption. }
+      simpl flat_map. simpl filter. unfold nonnull at 1. simpl snd. simpl fst.
+      destruct (is_null x) eqn:En.
+      + simpl. apply IH; [exact Hnd'| |exact Hr|apply Hke'; reflexivity].
+        intros k' Hin. apply Hdis. right; exact Hin.
+      + rewrite enter_map_empty. cbn [bind].
+        destruct (child_key t' x tr k (Hx En)) as [tr2 [H1 [H2 H3]]].
+        { intros E0. specialize (Hke E0). inversion Hke; assumption. }
+        rewrite H1. cbn [bind].
+        assert (Hnew : ~ In k (map fst acc)) by (apply Hdis; left; reflexivity).
+        rewrite (map_put_new k _ acc Hnew).
+        destruct (IH (acc ++ [(k, VS t' x)]) (pop tr2) Hnd') as [tr' [G1 [G2 G3]]].
+        * intros k' Hin. rewrite map_app. simpl. intros Hc. apply in_app_or in Hc as [Hc|[Hc|[]]].
+          -- apply (Hdis k'); [right; exact Hin|exact Hc].
+          -- subst k'. contradiction.
+        * exact Hr.
+        * apply Hke'. exact H2.
+        * exists tr'. split; [rewrite G1; simpl; rewrite <- app_assoc; reflexivity|]. split; [congruence|].
+          rewrite G3, H2, H3. rewrite <- app_assoc. reflexivity.
+  Qed.
+
+  (* ---- records ---- *)
+  Lemma goJrec_cons n k x r rv rem tr :
+    goJrec n ((k, x) :: r) rv rem tr =
+    if is_null x then goJrec n r rv rem tr
+    else do tr1 <- enter_map wildcard ps_empty ignore k tr;
+         do u <- umfJ e DJ K n k x rv tr1;
+         let '(_, rv', tr2) := u in goJrec n r rv' (remove_bytes k rem) (pop tr2).
+  Proof. destruct x; reflexivity. Qed.
+
+  Section Rec.
+    Variables (n : nat) (incs : list nat) (fs : list field).
+    Hypothesis Hn : lookup e n = Some (DRecord incs fs).
+
+    Lemma goJrec_exact : forall es rv rem tr,
+      NoDup (map fst es) -> shaped e K n rv ->
+      (forall k x fd, In (k, x) es -> is_null x = false -> field_of e n k = Some fd -> W (f_ty fd) x) ->
+      (t_scope tr = [] -> keys_nonempty es) ->
+      exists tr', goJrec n es rv rem tr = Ok (rec_upd e K n (look_of e VS n es) rv, filter (absent es) rem, tr') /\
+                  t_scope tr' = t_scope tr /\
+                  Permutation (t_missing tr') (t_missing tr ++ flat_map (joinE MS (t_scope tr) (fields_of e n)) es).
+    Proof.
+      destruct (Hwf n incs fs Hn) as [Hc HndF].
+      induction es as [|[k x] r IH]; intros rv rem tr Hnd Hs HW Hke.
+      - exists tr. cbn [flat_map]. rewrite app_nil_r. split; [|auto].
+        rewrite (rec_upd_id e K n (look_of e VS n []) rv); [|intros; reflexivity|exact Hs].
+        change (goJrec n [] rv rem tr) with (@Ok (value * list bytes * tracker) (rv, rem, tr)).
+        do 3 f_equal. induction rem as [|a rem IHr]; simpl; [reflexivity|]. rewrite <- IHr. reflexivity.
+      - inversion Hnd as [|? ? Hk Hnd']; subst. rewrite goJrec_cons.
+        assert (Hke' : forall tr0, t_scope tr0 = t_scope tr -> t_scope tr0 = [] -> keys_nonempty r).
+        { intros tr0 E E0. rewrite E in E0. specialize (Hke E0). inversion Hke; assumption. }
+        assert (HW' : forall k' x' fd, In (k', x') r -> is_null x' = false -> field_of e n k' = Some fd -> W (f_ty fd) x').
+        { intros k' x' fd Hin. apply HW. right; exact Hin. }
+        simpl flat_map. unfold joinE at 1. simpl snd. simpl fst.
+        destruct (is_null x) eqn:En.
+        + destruct (IH rv rem tr Hnd' Hs HW' (Hke' tr eq_refl)) as [tr' [G1 [G2 G3]]].
+          exists tr'. split; [|split; [exact G2|exact G3]]. rewrite G1. do 2 f_equal. f_equal.
+          * apply rec_upd_ext. intros key. unfold look_of. rewrite present_cons, En.
+            destruct (bytes_eqb key k) eqn:E; [|reflexivity]. apply bytes_eqb_eq in E. subst key.
+            rewrite (present_none k r Hk). reflexivity.
+          * apply filter_ext. intros f. unfold absent. rewrite present_cons, En.
+            destruct (bytes_eqb f k) eqn:E; [|reflexivity]. apply bytes_eqb_eq in E. subst f.
+            rewrite (present_none k r Hk). reflexivity.
+        + rewrite enter_map_empty. cbn [bind].
+          rewrite (umfJ_spec e DJ K n k x rv (push (SKey k) tr) Hc Hs HndF). unfold umf_res.
+          fold (fields_of e n). 
+          assert (Hfilt : filter (absent r) (remove_bytes k rem) = filter (absent ((k, x) :: r)) rem).
+          { rewrite remove_bytes_filter, filter_filter. apply filter_ext. intros f. unfold absent. rewrite present_cons, En.
+            rewrite (bytes_eqb_sym f k). destruct (bytes_eqb k f); reflexivity. }
+          destruct (find (keyp k) (fields_of e n)) as [fd|] eqn:Ef.
+          * destruct (child_key (f_ty fd) x tr k) as [tr2 [H1 [H2 H3]]].
+            { apply (HW k x fd); [left; reflexivity|exact En|exact Ef]. }
+            { intros E0. specialize (Hke E0). inversion Hke; assumption. }
+            rewrite H1. cbn [bind].
+            destruct (IH (rec_upd e K n (single k (VS (f_ty fd) x)) rv) (remove_bytes k rem) (pop tr2) Hnd'
+                        (shaped_rec_upd e K n _ rv Hs) HW' (Hke' _ H2)) as [tr' [G1 [G2 G3]]].
+            exists tr'. split; [|split; [congruence|]].
+            -- rewrite G1, Hfilt, rec_upd_compose. do 2 f_equal. f_equal.
+               apply rec_upd_ext. intros key. unfold orelse, look_of, single. rewrite present_cons, En.
+               rewrite (bytes_eqb_sym key k). destruct (bytes_eqb k key) eqn:E.
+               ++ apply bytes_eqb_eq in E. subst key. rewrite (present_none k r Hk). rewrite field_of_eq, Ef. reflexivity.
+               ++ destruct (present r key); [destruct (field_of e n key)|]; reflexivity.
+            -- rewrite G3, H2, H3. rewrite <- app_assoc. reflexivity.
+          * cbn [bind].
+            destruct (IH rv (remove_bytes k rem) (pop (push (SKey k) tr)) Hnd' Hs HW') as [tr' [G1 [G2 G3]]].
+            { apply Hke'. apply (pop_push_scope (SKey k)). reflexivity. }
+            assert (Esc : t_scope (pop (push (SKey k) tr)) = t_scope tr) by (apply (pop_push_scope (SKey k)); reflexivity).
+            exists tr'. split; [|split; [congruence|]].
+            -- rewrite G1, Hfilt. do 2 f_equal. f_equal.
+               apply rec_upd_ext. intros key. unfold look_of. rewrite present_cons, En.
+               destruct (bytes_eqb key k) eqn:E; [|reflexivity]. apply bytes_eqb_eq in E. subst key.
+               rewrite (present_none k r Hk). rewrite field_of_eq, Ef. reflexivity.
+            -- rewrite G3, Esc. simpl. reflexivity.
+    Qed.
+  End Rec.
+
+  (* ---- unions ---- *)
+  Lemma goJuni_cons ms k x r uv b tr :
+    goJuni ms ((k, x) :: r) uv b tr =
+    if is_null x then goJuni ms r uv b tr
+    else do tr1 <- enter_map wildcard ps_empty ignore k tr;
+         if b then Err EUnion
+         else match index_of k (map fst ms) 0 with
+              | Some j =>
+                  match nth_error ms j with
+                  | Some (_, mt) =>
+                      do rr <- DJ false mt x tr1;
+                      let '(v, tr2) := rr in goJuni ms r (set_nth j (Some v) uv) true (pop tr2)
+                  | None => Err EType
+                  end
+              | None => Err EUnion
+              end.
+  Proof. destruct x; reflexivity. Qed.
+
+  Definition uni_f (ms : list (bytes * ty)) (uv : list (option value)) (kx : bytes * jdoc) : list (option value) :=
+    if is_null (snd kx) then uv
+    else match index_of (fst kx) (map fst ms) 0, assoc_ty (fst kx) ms with
+         | Some j, Some mt => set_nth j (Some (VS mt (snd kx))) uv
+         | _, _ => uv
+         end.
+  Definition uni_g (ms : list (bytes * ty)) (sc : list seg) (kx : bytes * jdoc) : list bytes :=
+    if is_null (snd kx) then []
+    else match assoc_ty (fst kx) ms with
+         | Some mt => MS mt (snd kx) (sc ++ [SKey (fst kx)])
+         | None => []
+         end.
+
+  Lemma uni_all_null ms sc : forall es uv b tr, filter nonnull es = [] ->
+    goJuni ms es uv b tr = Ok (uv, b, tr) /\ fold_left (uni_f ms) es uv = uv /\ flat_map (uni_g ms sc) es = [].
+  Proof.
+    induction es as [|[k x] r IH]; intros uv b tr Hf; [auto|].
+    simpl in Hf. unfold nonnull at 1 in Hf. simpl in Hf. destruct (is_null x) eqn:En; simpl in Hf; [|discriminate].
+    rewrite goJuni_cons, En. simpl. unfold uni_f at 2, uni_g at 1. simpl. rewrite En. simpl. apply IH. exact Hf.
+  Qed.
+
+  Lemma assoc_index k mt : forall ms i, assoc_ty k ms = Some mt ->
+    exists j a, index_of k (map fst ms) i = Some (i + j) /\ nth_error ms j = Some (a, mt).
+  Proof.
+    unfold assoc_ty. induction ms as [|[a t0] ms IH]; intros i H; [discriminate|]. simpl in *.
+    destruct (bytes_eqb k a) eqn:E.
+    - injection H as <-. exists 0, a. rewrite Nat.add_0_r. auto.
+    - destruct (IH (S i) H) as [j [a' [H1 H2]]]. exists (S j), a'. split; [rewrite H1; f_equal; lia|exact H2].
+  Qed.
+
+  Lemma goJuni_one ms : forall es uv tr kx mt,
+    filter nonnull es = [kx] -> assoc_ty (fst kx) ms = Some mt -> W mt (snd kx) ->
+    (t_scope tr = [] -> keys_nonempty es) ->
+    exists tr', goJuni ms es uv false tr = Ok (fold_left (uni_f ms) es uv, true, tr') /\ t_scope tr' = t_scope tr /\
+                Permutation (t_missing tr') (t_missing tr ++ flat_map (uni_g ms (t_scope tr)) es).
+  Proof.
+    induction es as [|[k x] r IH]; intros uv tr kx mt Hf Ha Hw Hke; [discriminate|].
+    simpl in Hf. unfold nonnull at 1 in Hf. simpl in Hf. rewrite goJuni_cons.
+    simpl fold_left. simpl flat_map. unfold uni_f at 2, uni_g at 1. simpl fst. simpl snd.
+    destruct (is_null x) eqn:En; simpl in Hf.
+    - apply (IH uv tr kx mt Hf Ha Hw). intros E0. specialize (Hke E0). inversion Hke; assumption.
+    - injection Hf as <- Hf. simpl in Ha, Hw. rewrite enter_map_empty. cbn [bind].
+      destruct (assoc_index k mt ms 0 Ha) as [j [a [H1 H2]]]. simpl in H1. rewrite H1, H2, Ha.
+      destruct (child_key mt x tr k Hw) as [tr2 [G1 [G2 G3]]].
+      { intros E0. specialize (Hke E0). inversion Hke; assumption. }
+      rewrite G1. cbn [bind].
+      destruct (uni_all_null ms (t_scope tr) r (set_nth j (Some (VS mt x)) uv) true (pop tr2) Hf) as [U1 [U2 U3]].
+      rewrite U1, U2, U3. exists (pop tr2). split; [reflexivity|]. split; [exact G2|]. rewrite app_nil_r. exact G3.
+  Qed.
+
+  (* ---- the step ---- *)
+  Theorem stepJ_exact : forall top t d tr,
+    ws_step e parseF W t d ->
+    t_scope tr <> [SKey []] -> (t_scope tr = [] -> keys_nonempty (entries_of d)) ->
+    exists tr',
+      stepJ e wildcard ps_empty ignore parseF DJ top t d tr
+      = Ok (val_step e parseF DJ VS (top && negb (is_nilb (t_missing tr ++ ms_step e MS t d (t_scope tr)))) t d, tr') /\
+      t_scope tr' = t_scope tr /\
+      Permutation (t_missing tr') (t_missing tr ++ ms_step e MS t d (t_scope tr)).
+  Proof.
+    intros top t d tr Hws Hsc Hke. destruct t as [p|syms|sz|n|t'|t']; simpl in Hws.
+    - destruct Hws as [v Hv]. exists tr. simpl. rewrite Hv, app_nil_r. auto.
+    - destruct Hws as [s ->]. exists tr. simpl. rewrite app_nil_r. auto.
+    - destruct Hws as [b [Hb Hl]]. exists tr. simpl. rewrite Hb, app_nil_r. cbn [bind].
+      rewrite (proj2 (Nat.eqb_eq _ _) Hl). auto.
+    - cbn [stepJ val_step ms_step].
+      destruct (lookup e n) as [[incs fs|nullable ms]|] eqn:El; [| |contradiction].
+      + (* record *)
+        destruct Hws as [es [Hes [Hnd HF]]].
+        assert (Ees : entries_of d = es) by (destruct d; simpl in Hes; try discriminate; injection Hes as <-; reflexivity).
+        assert (Eb : match d with JNull => Ok [] | JObj es => Ok es | _ => Err EDeser end = Ok es)
+          by (destruct d; simpl in Hes; try discriminate; injection Hes as <-; reflexivity).
+        rewrite Eb, Ees. cbn [bind]. rewrite Ees in Hke.
+        destruct (Hwf n incs fs El) as [Hc HndF].
+        destruct (goJrec_exact n incs fs El es (zero_value e (S (S (length e))) (TRef n))
+                    (required_fields e (S (length e)) n) tr Hnd (zero_value_shaped e _ n Hc)) as [tr1 [G1 [G2 G3]]].
+        { intros k x fd Hin Hnn Hfd. rewrite Forall_forall in HF. rewrite field_of_eq in Hfd.
+          apply find_some in Hfd as [Hin2 Ek]. unfold keyp in Ek. apply bytes_eqb_eq in Ek. subst k.
+          specialize (HF fd Hin2). rewrite (in_present es (f_name fd) x Hnd Hin Hnn) in HF. exact HF. }
+        { exact Hke. }
+        rewrite G1. cbn [bind].
+        assert (Hsc1 : t_scope tr1 <> [SKey []]) by (rewrite G2; exact Hsc).
+        destruct (record_missing_empty wildcard ignore (filter (absent es) (required_fields e (S (length e)) n)) tr1 Hsc1)
+          as [R1 R2].
+        assert (HP : Permutation
+                       (t_missing (record_missing wildcard ps_empty ignore
+                                     (filter (absent es) (required_fields e (S (length e)) n)) tr1))
+                       (t_missing tr ++ flat_map (ms_field MS es (t_scope tr)) (fields_of e n))).
+        { rewrite R1, G3, G2. rewrite <- app_assoc. apply Permutation_app_head.
+          rewrite (flat_map_ext_in (ms_field MS es (t_scope tr))
+                     (fun fd => joinA MS (t_scope tr) es fd ++ joinB (t_scope tr) es fd)).
+          2:{ intros fd _. unfold ms_field, joinA, joinB. destruct (present es (f_name fd)); [rewrite app_nil_r|]; reflexivity. }
+          rewrite Permutation_flat_map_app. rewrite (join_perm MS (t_scope tr) (fields_of e n) HndF es Hnd).
+          apply Permutation_app_head. rewrite joinB_eq, required_fields_all. reflexivity. }
+        eexists. split; [|split; [rewrite R2; exact G2|exact HP]].
+        f_equal. f_equal.
+        change (match t_missing ?x with [] => true | _ => false end) with (is_nilb (t_missing x)).
+        rewrite (is_nilb_perm _ _ HP). reflexivity.
+      + (* union *)
+        destruct Hws as [es [Hes [Hnd HU]]].
+        assert (Ees : entries_of d = es) by (destruct d; simpl in Hes; try discriminate; injection Hes as <-; reflexivity).
+        assert (Eb : match d with JNull => Ok [] | JObj es => Ok es | _ => Err EDeser end = Ok es)
+          by (destruct d; simpl in Hes; try discriminate; injection Hes as <-; reflexivity).
+        rewrite Eb, Ees. cbn [bind]. rewrite Ees in Hke. unfold ws_union in HU.
+        fold (uni_g ms (t_scope tr)). unfold union_val. fold (uni_f ms).
+        destruct (filter (fun kx => negb (is_null (snd kx))) es) as [|kx [|kx2 rest]] eqn:Ef; [| |contradiction].
+        * subst nullable.
+          destruct (uni_all_null ms (t_scope tr) es (map (fun _ => None) ms) false tr Ef) as [U1 [U2 U3]].
+          rewrite U1, U2, U3. simpl. exists tr. rewrite app_nil_r. auto.
+        * destruct HU as [mt [Ha Hw]].
+          destruct (goJuni_one ms es (map (fun _ => None) ms) tr kx mt Ef Ha Hw Hke) as [tr' [G1 [G2 G3]]].
+          rewrite G1. cbn [bind]. rewrite andb_false_r. exists tr'. auto.
+    - destruct d; try contradiction.
+      + exists tr. simpl. rewrite app_nil_r. auto.
+      + destruct (goJarr_exact t' items 0 [] tr Hws) as [tr' [G1 [G2 G3]]]. exists tr'. simpl. rewrite G1. auto.
+    - destruct d; try contradiction.
+      + exists tr. simpl. rewrite app_nil_r. auto.
+      + destruct Hws as [Hnd HF].
+        destruct (goJmap_exact t' entries [] tr Hnd ltac:(intros k _ []) HF Hke) as [tr' [G1 [G2 G3]]].
+        exists tr'. simpl. rewrite G1. auto.
+  Qed.
+End StepExact.
+
+(* ---------------------------------------------------------------------------------------------------------------------------
+   G. sort.Strings does not depend on the order in which the paths were recorded
+   --------------------------------------------------------------------------------------------------------------------------- *)
+Definition ble (a b : bytes) : Prop := bytes_ltb b a = false.
+
+Lemma ble_trans a b c : ble a b -> ble b c -> ble a c.
+Proof.
+  unfold ble. intros H1 H2. destruct (bytes_ltb c a) eqn:E; [|reflexivity].
+  destruct (bytes_ltb b c) eqn:E2.
+  - rewrite (bytes_ltb_trans _ _ _ E2 E) in H1. discriminate.
+  - pose proof (bytes_ltb_total _ _ H2 E2) as ->. rewrite E in H1. discriminate.
+Qed.
+
+Lemma insert_bytes_perm k l : Permutation (insert_bytes k l) (k :: l).
+Proof.
+  induction l as [|x r IH]; simpl; [reflexivity|]. destruct (bytes_ltb x k); [|reflexivity].
+  rewrite IH. apply perm_swap.
+Qed.
+
+Lemma sort_bytes_perm l : Permutation (sort_bytes l) l.
+Proof. induction l as [|k r IH]; simpl; [constructor|]. rewrite insert_bytes_perm, IH. reflexivity. Qed.
+
+Lemma insert_bytes_sorted k l : StronglySorted ble l -> StronglySorted ble (insert_bytes k l).
+Proof.
+  induction l as [|x r IH]; simpl; intros H; [repeat constructor|].
+  inversion H as [|? ? Hs Hf]; subst. destruct (bytes_ltb x k) eqn:E.
+  - constructor; [apply IH; exact Hs|]. rewrite insert_bytes_perm. constructor; [|exact Hf].
+    unfold ble. apply bytes_ltb_asym. exact E.
+  - constructor; [exact H|]. constructor; [exact E|]. rewrite Forall_forall in *. intros y Hy.
+    apply (ble_trans k x y); [exact E|apply Hf; exact Hy].
+Qed.
+
+Lemma sort_bytes_sorted l : StronglySorted ble (sort_bytes l).
+Proof. induction l as [|k r IH]; simpl; [constructor|]. apply insert_bytes_sorted. exact IH. Qed.
+
+Lemma sorted_perm_eq : forall l1 l2, StronglySorted ble l1 -> StronglySorted ble l2 -> Permutation l1 l2 -> l1 = l2.
+Proof.
+  induction l1 as [|a l1 IH]; intros l2 H1 H2 HP.
+  - apply Permutation_nil in HP. subst; reflexivity.
+  - destruct l2 as [|b l2]; [apply Permutation_sym, Permutation_nil in HP; discriminate|].
+    inversion H1 as [|? ? Hs1 Hf1]; subst. inversion H2 as [|? ? Hs2 Hf2]; subst.
+    assert (E : a = b).
+    { rewrite Forall_forall in Hf1, Hf2.
+      assert (Hab : ble a b).
+      { assert (Hin : In b (a :: l1)) by (apply (Permutation_in b (Permutation_sym HP)); left; reflexivity).
+        destruct Hin as [->|Hin]; [apply bytes_ltb_irrefl|apply Hf1; exact Hin]. }
+      assert (Hba : ble b a).
+      { assert (Hin : In a (b :: l2)) by (apply (Permutation_in a HP); left; reflexivity).
+        destruct Hin as [->|Hin]; [apply bytes_ltb_irrefl|apply Hf2; exact Hin]. }
+      apply bytes_ltb_total; assumption. }
+    subst b. f_equal. apply IH; [exact Hs1|exact Hs2|]. apply Permutation_cons_inv in HP. exact HP.
+Qed.
+
+Theorem sort_bytes_perm_invariant l1 l2 : Permutation l1 l2 -> sort_bytes l1 = sort_bytes l2.
+Proof.
+  intros H. apply sorted_perm_eq; try apply sort_bytes_sorted.
+  rewrite !sort_bytes_perm. exact H.
+Qed.
+
+(* ---------------------------------------------------------------------------------------------------------------------------
+   H. the decoder, exactly (induction on the fuel)
+   --------------------------------------------------------------------------------------------------------------------------- *)
+Section Exact.
+  Variable e : env.
+  Variables (wildcard : bytes) (ignore : nat).
+  Variable parseF : nat -> bytes -> option N.
+  Hypothesis Hwf : wf_schema e.
+
+  Notation decJ := (decJ e wildcard ps_empty ignore parseF).
+  Notation well_shaped := (well_shaped e parseF).
+
+  (* the decoded value, field by field in schema order; [raising] = "this is the record at the start of the input and some
+     required field is missing" (its own defaults are then not filled) *)
+  Fixpoint decode_spec (fuel : nat) (raising : bool) (t : ty) (d : jdoc) : value :=
+    match fuel with
+    | 0 => dummy_value
+    | S f => val_step e parseF (decJ f) (decode_spec f false) raising t d
+    end.
+
+  Definition raises (fuel : nat) (top : bool) (t : ty) (d : jdoc) (tr : tracker) : bool :=
+    top && negb (is_nilb (t_missing tr ++ missing_spec e fuel t d (t_scope tr))).
+
+  Theorem decJ_exact : forall fuel top t d tr,
+    well_shaped fuel t d ->
+    t_scope tr <> [SKey []] -> (t_scope tr = [] -> keys_nonempty (entries_of d)) ->
+    exists tr',
+      decJ fuel top t d tr = Ok (decode_spec fuel (raises fuel top t d tr) t d, tr') /\
+      t_scope tr' = t_scope tr /\
+      Permutation (t_missing tr') (t_missing tr ++ missing_spec e fuel t d (t_scope tr)).
+  Proof.
+    induction fuel as [|f IH]; intros top t d tr Hws Hsc Hke; [contradiction|].
+    rewrite decJ_unfold. cbn [decode_spec missing_spec]. unfold raises. cbn [missing_spec].
+    apply (stepJ_exact e wildcard ignore parseF (decJ f) Hwf (well_shaped f) (decode_spec f false) (missing_spec e f));
+      [|exact Hws|exact Hsc|exact Hke].
+    intros t0 x tr0 Hw Hne Hne2. destruct (IH false t0 x tr0 Hw Hne2) as [tr' H]; [intros E; contradiction|].
+    exists tr'. exact H.
+  Qed.
+
+  (* ---- the top level: NewJsonReader + UnmarshalRestLi ---- *)
+  Definition top_ok (data : bytes) (jd : jdoc) : Prop :=
+    data <> [] /\ bytes_eqb data lit_null = false /\ parse_json data = Some jd /\ keys_nonempty (entries_of jd).
+
+  (* a record at the start of the input: the missing-required-fields error carries exactly the specified paths, sorted *)
+  Theorem missing_exact : forall fuel t data jd,
+    is_record e t = true -> top_ok data jd -> well_shaped fuel t jd ->
+    decode_json e wildcard ps_empty ignore parseF fuel t data =
+    match missing_spec e fuel t jd [] with
+    | [] => DOk (decode_spec fuel false t jd)
+    | ms => DMissing (sort_bytes ms) (decode_spec fuel true t jd)
+    end.
+  Proof.
+    intros fuel t data jd Hrec [Hne [Hnull [Hp Hke]]] Hws. unfold decode_json.
+    destruct data as [|c data]; [contradiction|]. rewrite Hnull, Hp, Hrec.
+    destruct (decJ_exact fuel true t jd tracker0 Hws) as [tr' [H1 [H2 H3]]]; [discriminate|intros _; exact Hke|].
+    rewrite H1. unfold raises. simpl t_missing in *. simpl t_scope in *. simpl app in *. unfold finish.
+    destruct (missing_spec e fuel t jd []) as [|m ms] eqn:Em.
+    - apply Permutation_sym, Permutation_nil in H3. rewrite H3. reflexivity.
+    - destruct (t_missing tr') as [|m' ms'] eqn:Et; [apply Permutation_nil in H3; discriminate|].
+      rewrite (sort_bytes_perm_invariant _ _ H3). reflexivity.
+  Qed.
+
+  Corollary missing_exact_iff : forall fuel t data jd fs v,
+    is_record e t = true -> top_ok data jd -> well_shaped fuel t jd ->
+    (decode_json e wildcard ps_empty ignore parseF fuel t data = DMissing fs v <->
+     fs = sort_bytes (missing_spec e fuel t jd []) /\ fs <> [] /\ v = decode_spec fuel true t jd).
+  Proof.
+    intros fuel t data jd fs v Hrec Htop Hws. rewrite (missing_exact fuel t data jd Hrec Htop Hws).
+    destruct (missing_spec e fuel t jd []) as [|m ms] eqn:Em.
+    - split; [discriminate|]. intros [-> [H _]]. contradiction H. reflexivity.
+    - split.
+      + intros H. injection H as <- <-. split; [reflexivity|]. split; [|reflexivity].
+        change (sort_bytes (m :: ms) <> []).
+        intros E. pose proof (Permutation_length (sort_bytes_perm (m :: ms))) as HL. rewrite E in HL. discriminate.
+      + intros [-> [_ ->]]. reflexivity.
+  Qed.
+
+  Corollary missing_none_iff : forall fuel t data jd,
+    is_record e t = true -> top_ok data jd -> well_shaped fuel t jd ->
+    (missing_spec e fuel t jd [] = [] <->
+     decode_json e wildcard ps_empty ignore parseF fuel t data = DOk (decode_spec fuel false t jd)).
+  Proof.
+    intros fuel t data jd Hrec Htop Hws. rewrite (missing_exact fuel t data jd Hrec Htop Hws).
+    destruct (missing_spec e fuel t jd []); split; try reflexivity; discriminate.
+  Qed.
+
+  (* anything else at the start of the input never raises, whatever is missing below it (finding D33) *)
+  Theorem top_non_record_never_raises : forall fuel t data jd,
+    is_record e t = false -> top_ok data jd -> well_shaped fuel t jd ->
+    decode_json e wildcard ps_empty ignore parseF fuel t data
+    = DOk (decode_spec fuel (negb (is_nilb (missing_spec e fuel t jd []))) t jd).
+  Proof.
+    intros fuel t data jd Hrec [Hne [Hnull [Hp Hke]]] Hws. unfold decode_json.
+    destruct data as [|c data]; [contradiction|]. rewrite Hnull, Hp, Hrec.
+    destruct (decJ_exact fuel true t jd tracker0 Hws) as [tr' [H1 [H2 H3]]]; [discriminate|intros _; exact Hke|].
+    rewrite H1. unfold raises, finish. simpl. destruct (t_missing tr'); reflexivity.
+  Qed.
+End Exact.
+
+(* ---------------------------------------------------------------------------------------------------------------------------
+   I. the declarative reading of the missing set: only Required fields, only at positions reached through present values
+   --------------------------------------------------------------------------------------------------------------------------- *)
+Inductive missing_at (e : env) : ty -> jdoc -> list seg -> bytes -> Prop :=
+| ma_here n incs fs d fd sc :
+    lookup e n = Some (DRecord incs fs) -> In fd (fields_of e n) -> f_opt fd = Required ->
+    present (entries_of d) (f_name fd) = None ->
+    missing_at e (TRef n) d sc (scope_string (sc ++ [SKey (f_name fd)]))
+| ma_field n incs fs d fd x sc p :
+    lookup e n = Some (DRecord incs fs) -> In fd (fields_of e n) ->
+    present (entries_of d) (f_name fd) = Some x ->
+    missing_at e (f_ty fd) x (sc ++ [SKey (f_name fd)]) p ->
+    missing_at e (TRef n) d sc p
+| ma_union n nullable ms d k x mt sc p :
+    lookup e n = Some (DUnion nullable ms) -> In (k, x) (entries_of d) -> is_null x = false -> assoc_ty k ms = Some mt ->
+    missing_at e mt x (sc ++ [SKey k]) p ->
+    missing_at e (TRef n) d sc p
+| ma_arr t' items i x sc p :
+    nth_error items i = Some x -> missing_at e t' x (sc ++ [SIdx i]) p ->
+    missing_at e (TArray t') (JArr items) sc p
+| ma_map t' es k x sc p :
+    In (k, x) es -> is_null x = false -> missing_at e t' x (sc ++ [SKey k]) p ->
+    missing_at e (TMap t') (JObj es) sc p.
+
+Lemma in_ms_arr MS t' sc p : forall items i, In p (ms_arr MS t' sc i items) ->
+  exists j x, nth_error items j = Some x /\ In p (MS t' x (sc ++ [SIdx (i + j)])).
+Proof.
+  induction items as [|x r IH]; intros i H; [contradiction|]. simpl in H. apply in_app_or in H as [H|H].
+  - exists 0, x. rewrite Nat.add_0_r. auto.
+  - destruct (IH (S i) H) as [j [y [H1 H2]]]. exists (S j), y. split; [exact H1|].
+    replace (i + S j) with (S i + j) by lia. exact H2.
+Qed.
+
+Theorem missing_spec_sound e : forall fuel t d sc p, In p (missing_spec e fuel t d sc) -> missing_at e t d sc p.
+Proof.
+  induction fuel as [|f IH]; intros t d sc p H; [contradiction|]. cbn [missing_spec] in H.
+  destruct t as [?|?|?|n|t'|t']; simpl in H; try contradiction.
+  - destruct (lookup e n) as [[incs fs|nullable ms]|] eqn:El; [| |contradiction].
+    + apply in_flat_map in H as [fd [Hfd H]]. unfold ms_field in H.
+      destruct (present (entries_of d) (f_name fd)) as [x|] eqn:Ep.
+      * apply (ma_field e n incs fs d fd x sc p El Hfd Ep). apply IH. exact H.
+      * destruct (f_opt fd) eqn:Eo; simpl in H; try contradiction. destruct H as [<-|[]].
+        apply (ma_here e n incs fs d fd sc El Hfd Eo Ep).
+    + apply in_flat_map in H as [[k x] [Hin H]]. simpl in H. destruct (is_null x) eqn:En; [contradiction|].
+      destruct (assoc_ty k ms) as [mt|] eqn:Ea; [|contradiction].
+      apply (ma_union e n nullable ms d k x mt sc p El Hin En Ea). apply IH. exact H.
+  - destruct d; try contradiction. apply in_ms_arr in H as [j [x [H1 H2]]]. simpl in H2.
+    apply (ma_arr e t' items j x sc p H1). apply IH. exact H2.
+  - apply in_flat_map in H as [[k x] [Hin H]]. simpl in H. destruct (is_null x) eqn:En; [contradiction|].
+    destruct d; simpl in Hin; try contradiction. apply (ma_map e t' entries k x sc p Hin En). apply IH. exact H.
+Qed.
+
+(* every reported path is the path of a field declared Required (own or inherited) that has no non-null value: a field that is
+   Optional or carries a Default is never the origin of a report *)
+Theorem missing_at_required e : forall t d sc p, missing_at e t d sc p ->
+  exists rest n incs fs fd,
+    lookup e n = Some (DRecord incs fs) /\ In fd (fields_of e n) /\ f_opt fd = Required /\
+    p = scope_string ((sc ++ rest) ++ [SKey (f_name fd)]).
+Proof.
+  intros t d sc p H. induction H as [n incs fs d fd sc El Hfd Eo Ep
+                                    | n incs fs d fd x sc p El Hfd Ep H IH
+                                    | n nullable ms d k x mt sc p El Hin En Ea H IH
+                                    | t' items i x sc p Hn H IH
+                                    | t' es k x sc p Hin En H IH].
+  - exists [], n, incs, fs, fd. rewrite app_nil_r. auto.
+  - destruct IH as [rest [n' [incs' [fs' [fd' [H1 [H2 [H3 H4]]]]]]]].
+    exists (SKey (f_name fd) :: rest), n', incs', fs', fd'. repeat split; try assumption.
+    rewrite H4. f_equal. rewrite <- !app_assoc. reflexivity.
+  - destruct IH as [rest [n' [incs' [fs' [fd' [H1 [H2 [H3 H4]]]]]]]].
+    exists (SKey k :: rest), n', incs', fs', fd'. repeat split; try assumption.
+    rewrite H4. f_equal. rewrite <- !app_assoc. reflexivity.
+  - destruct IH as [rest [n' [incs' [fs' [fd' [H1 [H2 [H3 H4]]]]]]]].
+    exists (SIdx i :: rest), n', incs', fs', fd'. repeat split; try assumption.
+    rewrite H4. f_equal. rewrite <- !app_assoc. reflexivity.
+  - destruct IH as [rest [n' [incs' [fs' [fd' [H1 [H2 [H3 H4]]]]]]]].
+    exists (SKey k :: rest), n', incs', fs', fd'. repeat split; try assumption.
+    rewrite H4. f_equal. rewrite <- !app_assoc. reflexivity.
+Qed.
+
+Theorem optional_default_never_reported : forall e wildcard ignore parseF, wf_schema e ->
+  forall fuel top t d tr v tr',
+    well_shaped e parseF fuel t d -> t_scope tr <> [SKey []] -> (t_scope tr = [] -> keys_nonempty (entries_of d)) ->
+    decJ e wildcard ps_empty ignore parseF fuel top t d tr = Ok (v, tr') ->
+    forall p, In p (t_missing tr') ->
+      In p (t_missing tr) \/
+      (missing_at e t d (t_scope tr) p /\
+       exists rest n incs fs fd,
+         lookup e n = Some (DRecord incs fs) /\ In fd (fields_of e n) /\ f_opt fd = Required /\
+         p = scope_string ((t_scope tr ++ rest) ++ [SKey (f_name fd)])).
+Proof.
+  intros e wildcard ignore parseF Hwf fuel top t d tr v tr' Hws Hsc Hke Hd p Hp.
+  destruct (decJ_exact e wildcard ignore parseF Hwf fuel top t d tr Hws Hsc Hke) as [tr2 [H1 [H2 H3]]].
+  rewrite H1 in Hd. injection Hd as _ <-.
+  apply (Permutation_in p H3) in Hp. apply in_app_or in Hp as [Hp|Hp]; [left; exact Hp|right].
+  apply missing_spec_sound in Hp. split; [exact Hp|]. apply missing_at_required with (t := t) (d := d). exact Hp.
+Qed.
+
+(* ---------------------------------------------------------------------------------------------------------------------------
+   K. documents with the same known content decode identically: order independence and unknown-field tolerance
+   --------------------------------------------------------------------------------------------------------------------------- *)
+Definition opt_rel (R : jdoc -> jdoc -> Prop) (o1 o2 : option jdoc) : Prop :=
+  match o1, o2 with
+  | None, None => True
+  | Some x1, Some x2 => x1 = x2 \/ R x1 x2
+  | _, _ => False
+  end.
+
+Definition entry_rel (R : bytes -> jdoc -> jdoc -> Prop) (a b : bytes * jdoc) : Prop :=
+  fst a = fst b /\ is_null (snd a) = is_null (snd b) /\
+  (is_null (snd a) = false -> snd a = snd b \/ R (fst a) (snd a) (snd b)).
+
+Lemma obj_entries_of d es : obj_entries d = Some es -> entries_of d = es.
+Proof. destruct d; simpl; intros H; try discriminate; injection H as <-; reflexivity. Qed.
+
+Lemma entry_rel_keys R es1 es2 : Forall2 (entry_rel R) es1 es2 -> map fst es1 = map fst es2.
+Proof. intros H. induction H as [|a b l1 l2 [Hk _] _ IH]; simpl; [reflexivity|]. rewrite Hk, IH. reflexivity. Qed.
+
+Lemma entry_rel_filter R es1 es2 :
+  Forall2 (entry_rel R) es1 es2 -> Forall2 (entry_rel R) (filter nonnull es1) (filter nonnull es2).
+Proof.
+  intros H. induction H as [|a b l1 l2 Hab _ IH]; simpl; [constructor|].
+  destruct Hab as [Hk [Hn Hr]].
+  assert (Eb : nonnull b = nonnull a) by (unfold nonnull; rewrite Hn; reflexivity). rewrite Eb.
+  destruct (nonnull a); [|exact IH]. constructor; [|exact IH]. split; [exact Hk|]. split; [exact Hn|exact Hr].
+Qed.
+
+Lemma Permutation_filter' {A} (p : A -> bool) l l' : Permutation l l' -> Permutation (filter p l) (filter p l').
+Proof.
+  intros H. induction H as [|x l l' _ IH|x y l|l l' l'' _ IH1 _ IH2]; simpl.
+  - constructor.
+  - destruct (p x); [apply perm_skip|]; exact IH.
+  - destruct (p x), (p y); try reflexivity. apply perm_swap.
+  - rewrite IH1. exact IH2.
+Qed.
+
+Lemma flat_map_perm_F2 {A B C} (Q : A -> B -> Prop) (f : A -> list C) (g : B -> list C) l1 l2 :
+  Forall2 Q l1 l2 -> (forall a b, Q a b -> Permutation (f a) (g b)) -> Permutation (flat_map f l1) (flat_map g l2).
+Proof.
+  intros H Hfg. induction H as [|a b l1 l2 Hab _ IH]; simpl; [constructor|]. apply Permutation_app; [apply Hfg; exact Hab|exact IH].
+Qed.
+
+Lemma flat_map_perm_in {A C} (f g : A -> list C) l :
+  (forall x, In x l -> Permutation (f x) (g x)) -> Permutation (flat_map f l) (flat_map g l).
+Proof.
+  induction l as [|a l IH]; simpl; intros H; [constructor|]. apply Permutation_app; [apply H; auto|]. apply IH. intros x Hx. apply H; auto.
+Qed.
+
+Lemma fold_left_filter {A B} (F : A -> B -> A) (p : B -> bool) :
+  (forall a b, p b = false -> F a b = a) -> forall l a, fold_left F l a = fold_left F (filter p l) a.
+Proof.
+  intros H. induction l as [|b l IH]; intros a; simpl; [reflexivity|]. destruct (p b) eqn:E; simpl; [apply IH|].
+  rewrite (H a b E). apply IH.
+Qed.
+
+Lemma flat_map_filter {A B} (G : A -> list B) (p : A -> bool) :
+  (forall a, p a = false -> G a = []) -> forall l, flat_map G l = flat_map G (filter p l).
+Proof.
+  intros H. induction l as [|a l IH]; simpl; [reflexivity|]. destruct (p a) eqn:E; simpl; [rewrite IH; reflexivity|].
+  rewrite (H a E). exact IH.
+Qed.
+
+Lemma NoDup_keys_filter {A} (p : bytes * A -> bool) l : NoDup (map fst l) -> NoDup (map fst (filter p l)).
+Proof.
+  induction l as [|a l IH]; simpl; intros H; [constructor|]. inversion H as [|? ? Hn Hnd]; subst.
+  destruct (p a); simpl; [|apply IH; exact Hnd]. constructor; [|apply IH; exact Hnd].
+  intros Hin. apply Hn. apply in_map_iff in Hin as [x [Hx Hin]]. apply filter_In in Hin as [Hin _].
+  rewrite <- Hx. apply in_map. exact Hin.
+Qed.
+
+Lemma jfind_perm k es es' : Permutation es es' -> NoDup (map fst es) -> jfind k es = jfind k es'.
+Proof.
+  intros HP. induction HP as [|x l l' _ IH|x y l|l l' l'' HP1 IH1 HP2 IH2]; intros Hnd; simpl.
+  - reflexivity.
+  - inversion Hnd; subst. rewrite IH by assumption. reflexivity.
+  - inversion Hnd as [|? ? Hn Hnd']; subst. destruct (bytes_eqb k (fst y)) eqn:E1, (bytes_eqb k (fst x)) eqn:E2; try reflexivity.
+    apply bytes_eqb_eq in E1, E2. exfalso. apply Hn. left. congruence.
+  - rewrite IH1 by assumption. apply IH2. apply (Permutation_NoDup (Permutation_map fst HP1)). exact Hnd.
+Qed.
+
+Lemma present_perm es es' k : NoDup (map fst es) -> Permutation es es' -> present es k = present es' k.
+Proof. intros Hnd HP. unfold present. rewrite (jfind_perm k es es' HP Hnd). reflexivity. Qed.
+
+Lemma present_insert l1 l2 k x name : name <> k -> present (l1 ++ (k, x) :: l2) name = present (l1 ++ l2) name.
+Proof.
+  intros Hne. induction l1 as [|[k1 x1] l1 IH]; simpl.
+  - rewrite present_cons. destruct (bytes_eqb name k) eqn:E; [apply bytes_eqb_eq in E; contradiction|reflexivity].
+  - rewrite !present_cons, IH. reflexivity.
+Qed.
+
+Section Sim.
+  Variable e : env.
+
+  Section SimStep.
+    Variable S : ty -> jdoc -> jdoc -> Prop.
+
+    Definition sim_step (t : ty) (d1 d2 : jdoc) : Prop :=
+      match t with
+      | TPrim _ | TEnum _ | TFixed _ => d1 = d2
+      | TArray t' =>
+          match d1, d2 with
+          | JArr l1, JArr l2 => Forall2 (fun a b => a = b \/ S t' a b) l1 l2
+          | _, _ => d1 = d2
+          end
+      | TMap t' =>
+          match d1, d2 with
+          | JObj es1, JObj es2 => exists es2', Forall2 (entry_rel (fun _ => S t')) es1 es2' /\ Permutation es2' es2
+          | _, _ => d1 = d2
+          end
+      | TRef n =>
+          match lookup e n with
+          | Some (DRecord _ _) =>
+              exists es2, obj_entries d2 = Some es2 /\ NoDup (map fst es2) /\
+                forall fd, In fd (fields_of e n) ->
+                  opt_rel (S (f_ty fd)) (present (entries_of d1) (f_name fd)) (present es2 (f_name fd))
+          | Some (DUnion _ ms) =>
+              exists es2' es2, obj_entries d2 = Some es2 /\
+                Forall2 (entry_rel (fun k x1 x2 => forall mt, assoc_ty k ms = Some mt -> S mt x1 x2)) (entries_of d1) es2' /\
+                Permutation es2' es2
+          | None => d1 = d2
+          end
+      end.
+
+    Variable parseF : nat -> bytes -> option N.
+    Variable DJ : bool -> ty -> jdoc -> tracker -> res (value * tracker).
+    Variable W : ty -> jdoc -> Prop.
+    Variable VS : ty -> jdoc -> value.
+    Variable MS : ty -> jdoc -> list seg -> list bytes.
+    Hypothesis HS : forall t x1 x2, W t x1 -> S t x1 x2 ->
+      W t x2 /\ VS t x1 = VS t x2 /\ forall sc, Permutation (MS t x1 sc) (MS t x2 sc).
+
+    Lemma HSeq t x1 x2 : W t x1 -> x1 = x2 \/ S t x1 x2 ->
+      W t x2 /\ VS t x1 = VS t x2 /\ forall sc, Permutation (MS t x1 sc) (MS t x2 sc).
+    Proof. intros Hw [<-|Hs]; [auto|]. apply HS; assumption. Qed.
+
+    Lemma arr_ok t' l1 l2 : Forall2 (fun a b => a = b \/ S t' a b) l1 l2 -> Forall (W t') l1 ->
+      Forall (W t') l2 /\ map (VS t') l1 = map (VS t') l2 /\
+      forall sc i, Permutation (ms_arr MS t' sc i l1) (ms_arr MS t' sc i l2).
+    Proof.
+      intros H. induction H as [|a b l1 l2 Hab _ IH]; intros HW; [auto|].
+      inversion HW as [|? ? Ha Hl]; subst. destruct (IH Hl) as [I1 [I2 I3]]. destruct (HSeq t' a b Ha Hab) as [A1 [A2 A3]].
+      split; [constructor; assumption|]. split; [simpl; rewrite A2, I2; reflexivity|].
+      intros sc i. simpl. apply Permutation_app; [apply A3|apply I3].
+    Qed.
+
+    Lemma map_ok t' es1 es2 : Forall2 (entry_rel (fun _ => S t')) es1 es2 ->
+      Forall (fun kx => is_null (snd kx) = false -> W t' (snd kx)) es1 ->
+      Forall (fun kx => is_null (snd kx) = false -> W t' (snd kx)) es2 /\
+      map (fun kx => (fst kx, VS t' (snd kx))) (filter nonnull es1) = map (fun kx => (fst kx, VS t' (snd kx))) (filter nonnull es2) /\
+      forall sc, Permutation
+                   (flat_map (fun kx => if is_null (snd kx) then [] else MS t' (snd kx) (sc ++ [SKey (fst kx)])) es1)
+                   (flat_map (fun kx => if is_null (snd kx) then [] else MS t' (snd kx) (sc ++ [SKey (fst kx)])) es2).
+    Proof.
+      intros H. induction H as [|a b l1 l2 [Hk [Hn Hr]] _ IH]; intros HW; [auto|].
+      inversion HW as [|? ? Ha Hl]; subst. destruct (IH Hl) as [I1 [I2 I3]]. simpl.
+      assert (Eb : nonnull b = nonnull a) by (unfold nonnull; rewrite Hn; reflexivity). rewrite Eb.
+      assert (Ea : nonnull a = negb (is_null (snd a))) by reflexivity. rewrite !Ea.
+      rewrite <- Hn.
+      destruct (is_null (snd a)) eqn:En; simpl.
+      - split; [constructor; [intros E; congruence|exact I1]|]. split; [exact I2|exact I3].
+      - destruct (HSeq t' (snd a) (snd b) (Ha eq_refl) (Hr eq_refl)) as [A1 [A2 A3]].
+        split; [constructor; [intros _; exact A1|exact I1]|]. split; [rewrite A2, I2, Hk; reflexivity|].
+        intros sc. apply Permutation_app; [rewrite Hk; apply A3|apply I3].
+    Qed.
+
+    Theorem sim_step_ok t d1 d2 :
+      ws_step e parseF W t d1 -> sim_step t d1 d2 ->
+      ws_step e parseF W t d2 /\
+      (forall r, val_step e parseF DJ VS r t d1 = val_step e parseF DJ VS r t d2) /\
+      (forall sc, Permutation (ms_step e MS t d1 sc) (ms_step e MS t d2 sc)).
+    Proof.
+      intros Hws Hs. destruct t as [p|syms|sz|n|t'|t']; simpl in Hs.
+      - subst d2. auto.
+      - subst d2. auto.
+      - subst d2. auto.
+      - cbn [ws_step val_step ms_step] in *. destruct (lookup e n) as [[incs fs|nullable ms]|] eqn:El; [| |contradiction].
+        + (* record *)
+          destruct Hws as [es1 [He1 [Hnd1 HF1]]]. destruct Hs as [es2 [He2 [Hnd2 Hrel]]].
+          rewrite (obj_entries_of d1 es1 He1) in *. rewrite (obj_entries_of d2 es2 He2). rewrite Forall_forall in HF1.
+          assert (Hfd : forall fd, In fd (fields_of e n) ->
+                    match present es1 (f_name fd), present es2 (f_name fd) with
+                    | None, None => True
+                    | Some x1, Some x2 => W (f_ty fd) x2 /\ VS (f_ty fd) x1 = VS (f_ty fd) x2 /\
+                                          forall sc, Permutation (MS (f_ty fd) x1 sc) (MS (f_ty fd) x2 sc)
+                    | _, _ => False
+                    end).
+          { intros fd Hin. specialize (Hrel fd Hin). specialize (HF1 fd Hin). unfold opt_rel in Hrel.
+            destruct (present es1 (f_name fd)) as [x1|], (present es2 (f_name fd)) as [x2|]; try contradiction; [|exact I].
+            apply HSeq; assumption. }
+          split; [|split].
+          * exists es2. split; [exact He2|]. split; [exact Hnd2|]. apply Forall_forall. intros fd Hin. specialize (Hfd fd Hin).
+            destruct (present es1 (f_name fd)), (present es2 (f_name fd)); try contradiction; [tauto|exact I].
+          * intros r. rewrite (rec_upd_ext e (Datatypes.S (length e)) n (look_of e VS n es1) (look_of e VS n es2)); [reflexivity|].
+            intros key. unfold look_of. destruct (field_of e n key) as [fd|] eqn:Ef.
+            -- rewrite field_of_eq in Ef. apply find_some in Ef as [Hin Ek]. unfold keyp in Ek. apply bytes_eqb_eq in Ek. subst key.
+               specialize (Hfd fd Hin).
+               destruct (present es1 (f_name fd)), (present es2 (f_name fd)); try contradiction; [|reflexivity].
+               f_equal. tauto.
+            -- destruct (present es1 key), (present es2 key); reflexivity.
+          * intros sc. apply flat_map_perm_in. intros fd Hin. specialize (Hfd fd Hin). unfold ms_field.
+            destruct (present es1 (f_name fd)), (present es2 (f_name fd)); try contradiction; [apply Hfd|reflexivity].
+        + (* union *)
+          destruct Hws as [es1 [He1 [Hnd1 HU]]]. destruct Hs as [es2' [es2 [He2 [HF2 HP]]]].
+          rewrite (obj_entries_of d1 es1 He1) in *. rewrite (obj_entries_of d2 es2 He2).
+          pose proof (entry_rel_filter _ _ _ HF2) as HFf. pose proof (Permutation_filter' nonnull _ _ HP) as HPf.
+          assert (Hnd2 : NoDup (map fst es2)).
+          { apply (Permutation_NoDup (Permutation_map fst HP)). rewrite <- (entry_rel_keys _ _ _ HF2). exact Hnd1. }
+          assert (Hnn : forall A (a : A) kx, nonnull kx = false -> (if is_null (snd kx) then a else a) = a)
+            by (intros; destruct (is_null _); reflexivity).
+          unfold union_val.
+          rewrite (fold_left_filter _ nonnull) with (l := es1)
+            by (intros uv kx E; unfold nonnull in E; apply negb_false_iff in E; rewrite E; reflexivity).
+          rewrite (fold_left_filter _ nonnull) with (l := es2)
+            by (intros uv kx E; unfold nonnull in E; apply negb_false_iff in E; rewrite E; reflexivity).
+          assert (Hms : forall sc (es : list (bytes * jdoc)),
+                    flat_map (fun kx => if is_null (snd kx) then []
+                                        else match assoc_ty (fst kx) ms with
+                                             | Some mt => MS mt (snd kx) (sc ++ [SKey (fst kx)])
+                                             | None => []
+                                             end) es
+                    = flat_map (fun kx => if is_null (snd kx) then []
+                                          else match assoc_ty (fst kx) ms with
+                                               | Some mt => MS mt (snd kx) (sc ++ [SKey (fst kx)])
+                                               | None => []
+                                               end) (filter nonnull es)).
+          { intros sc es. apply flat_map_filter. intros kx E. unfold nonnull in E. apply negb_false_iff in E. rewrite E. reflexivity. }
+          unfold ws_union in *. fold nonnull in HU |- *.
+          destruct (filter nonnull es1) as [|kx [|kx' rest]] eqn:Ef1; [| |contradiction].
+          * inversion HFf; subst. match goal with H : [] = filter nonnull es2' |- _ => rewrite <- H in HPf end.
+            apply Permutation_nil in HPf. split; [|split].
+            -- exists es2. split; [exact He2|]. split; [exact Hnd2|]. rewrite HPf. first [exact HU|reflexivity].
+            -- intros r. rewrite HPf. reflexivity.
+            -- intros sc. rewrite (Hms sc es1), (Hms sc es2), Ef1, HPf. reflexivity.
+          * inversion HFf as [|? kx2 ? l2' Hab Hrest Eq1 Eq2]; subst. inversion Hrest; subst.
+            rewrite <- Eq2 in HPf. apply Permutation_length_1_inv in HPf.
+            destruct HU as [mt [Ha Hw]]. destruct Hab as [Hk [Hn Hr]].
+            assert (En : is_null (snd kx) = false).
+            { assert (Hin : In kx (filter nonnull es1)) by (rewrite Ef1; left; reflexivity).
+              apply filter_In in Hin as [_ Hin]. unfold nonnull in Hin. apply negb_true_iff in Hin. exact Hin. }
+            assert (Hseq : snd kx = snd kx2 \/ S mt (snd kx) (snd kx2)).
+            { destruct (Hr En) as [E|Hall]; [left; exact E|right; apply Hall; exact Ha]. }
+            destruct (HSeq mt (snd kx) (snd kx2) Hw Hseq) as [A1 [A2 A3]].
+            split; [|split].
+            -- exists es2. split; [exact He2|]. split; [exact Hnd2|]. rewrite HPf. exists mt. rewrite <- Hk. auto.
+            -- intros r. rewrite HPf. simpl. rewrite <- Hk, <- Hn, Ha, A2. reflexivity.
+            -- intros sc. rewrite (Hms sc es1), (Hms sc es2), Ef1, HPf. simpl. rewrite <- Hk, <- Hn, Ha, !app_nil_r.
+               destruct (is_null (snd kx)); [reflexivity|apply A3].
+      - (* array *)
+        assert (Hrefl : d1 = d2 -> ws_step e parseF W (TArray t') d2 /\
+                  (forall r, val_step e parseF DJ VS r (TArray t') d1 = val_step e parseF DJ VS r (TArray t') d2) /\
+                  (forall sc, Permutation (ms_step e MS (TArray t') d1 sc) (ms_step e MS (TArray t') d2 sc)))
+          by (intros <-; auto).
+        destruct d1; try (apply Hrefl; exact Hs). destruct d2; try (apply Hrefl; exact Hs).
+        simpl in Hws. destruct (arr_ok t' _ _ Hs Hws) as [A1 [A2 A3]].
+        split; [exact A1|]. split; [intros r; simpl; rewrite A2; reflexivity|]. intros sc. simpl. apply A3.
+      - (* map *)
+        assert (Hrefl : d1 = d2 -> ws_step e parseF W (TMap t') d2 /\
+                  (forall r, val_step e parseF DJ VS r (TMap t') d1 = val_step e parseF DJ VS r (TMap t') d2) /\
+                  (forall sc, Permutation (ms_step e MS (TMap t') d1 sc) (ms_step e MS (TMap t') d2 sc)))
+          by (intros <-; auto).
+        destruct d1; try (apply Hrefl; exact Hs). destruct d2; try (apply Hrefl; exact Hs).
+        simpl in Hws. destruct Hws as [Hnd1 HW1]. destruct Hs as [es2' [HF2 HP]].
+        destruct (map_ok t' _ _ HF2 HW1) as [A1 [A2 A3]].
+        assert (Hnd2' : NoDup (map fst es2')) by (rewrite <- (entry_rel_keys _ _ _ HF2); exact Hnd1).
+        split; [|split].
+        + split; [apply (Permutation_NoDup (Permutation_map fst HP)); exact Hnd2'|].
+          apply (Permutation_Forall HP). exact A1.
+        + intros r. simpl. fold nonnull. rewrite A2. f_equal.
+          apply sort_entries_perm_invariant.
+          * apply Permutation_map. apply Permutation_filter'. exact HP.
+          * rewrite map_map. simpl. apply NoDup_keys_filter. exact Hnd2'.
+        + intros sc. simpl. rewrite (A3 sc). apply Permutation_flat_map. exact HP.
+    Qed.
+  End SimStep.
+
+  Fixpoint sim (fuel : nat) (t : ty) (d1 d2 : jdoc) : Prop :=
+    match fuel with 0 => False | S f => sim_step (sim f) t d1 d2 end.
+
+  Variables (wildcard : bytes) (ignore : nat).
+  Variable parseF : nat -> bytes -> option N.
+  Notation decJ := (decJ e wildcard ps_empty ignore parseF).
+  Notation decode_spec := (decode_spec e wildcard ignore parseF).
+  Notation well_shaped := (well_shaped e parseF).
+
+  Theorem sim_ok : forall fuel t d1 d2, well_shaped fuel t d1 -> sim fuel t d1 d2 ->
+    well_shaped fuel t d2 /\
+    (forall r, decode_spec fuel r t d1 = decode_spec fuel r t d2) /\
+    (forall sc, Permutation (missing_spec e fuel t d1 sc) (missing_spec e fuel t d2 sc)).
+  Proof.
+    induction fuel as [|f IH]; intros t d1 d2 Hws Hs; [contradiction|].
+    cbn [MissingProofs.well_shaped MissingProofs.decode_spec missing_spec sim] in *.
+    apply (sim_step_ok (sim f) parseF (decJ f) (well_shaped f) (decode_spec f false) (missing_spec e f)); [|exact Hws|exact Hs].
+    intros t0 x1 x2 Hw Hsx. destruct (IH t0 x1 x2 Hw Hsx) as [A [B C]]. auto.
+  Qed.
+
+  Hypothesis Hwf : wf_schema e.
+
+  (* the result of the decoder is a function of the known content of the document *)
+  Theorem same_content_same_result : forall fuel top t d1 d2 tr,
+    well_shaped fuel t d1 -> sim fuel t d1 d2 ->
+    t_scope tr <> [SKey []] ->
+    (t_scope tr = [] -> keys_nonempty (entries_of d1)) -> (t_scope tr = [] -> keys_nonempty (entries_of d2)) ->
+    exists v tr1 tr2,
+      decJ fuel top t d1 tr = Ok (v, tr1) /\ decJ fuel top t d2 tr = Ok (v, tr2) /\
+      t_scope tr1 = t_scope tr2 /\ Permutation (t_missing tr1) (t_missing tr2) /\
+      sort_bytes (t_missing tr1) = sort_bytes (t_missing tr2).
+  Proof.
+    intros fuel top t d1 d2 tr Hws Hs Hsc Hk1 Hk2. destruct (sim_ok fuel t d1 d2 Hws Hs) as [Hws2 [Hv Hm]].
+    destruct (decJ_exact e wildcard ignore parseF Hwf fuel top t d1 tr Hws Hsc Hk1) as [tr1 [A1 [A2 A3]]].
+    destruct (decJ_exact e wildcard ignore parseF Hwf fuel top t d2 tr Hws2 Hsc Hk2) as [tr2 [B1 [B2 B3]]].
+    assert (HP : Permutation (t_missing tr1) (t_missing tr2)).
+    { rewrite A3, B3. apply Permutation_app_head. apply Hm. }
+    exists (decode_spec fuel (raises e fuel top t d1 tr) t d1), tr1, tr2. split; [exact A1|]. split.
+    - rewrite B1. do 2 f_equal. rewrite Hv. f_equal. unfold raises. f_equal. f_equal. apply is_nilb_perm.
+      apply Permutation_app_head. apply Permutation_sym. apply Hm.
+    - split; [congruence|]. split; [exact HP|apply sort_bytes_perm_invariant; exact HP].
+  Qed.
+End Sim.
+
+(* ---- order independence: permuting the entries of any object at any depth ---- *)
+Inductive jperm : jdoc -> jdoc -> Prop :=
+| jp_refl d : jperm d d
+| jp_arr l1 l2 : Forall2 jperm l1 l2 -> jperm (JArr l1) (JArr l2)
+| jp_obj es1 es2' es2 :
+    Forall2 (fun a b => fst a = fst b /\ jperm (snd a) (snd b)) es1 es2' -> Permutation es2' es2 ->
+    jperm (JObj es1) (JObj es2).
+
+Lemma jperm_null x1 x2 : jperm x1 x2 -> is_null x1 = is_null x2.
+Proof. intros H. inversion H; reflexivity. Qed.
+
+Lemma Forall2_impl_in {A B} (P Q : A -> B -> Prop) l1 l2 :
+  Forall2 P l1 l2 -> (forall a b, In a l1 -> P a b -> Q a b) -> Forall2 Q l1 l2.
+Proof.
+  intros H. induction H as [|a b l1 l2 Hab _ IH]; intros HPQ; constructor.
+  - apply HPQ; [left; reflexivity|exact Hab].
+  - apply IH. intros a' b' Hin. apply HPQ. right; exact Hin.
+Qed.
+
+Lemma Forall2_refl_or {A} (R : A -> A -> Prop) l : Forall2 (fun a b => a = b \/ R a b) l l.
+Proof. induction l; constructor; auto. Qed.
+
+Lemma jperm_pairs_keys es1 es2 :
+  Forall2 (fun a b : bytes * jdoc => fst a = fst b /\ jperm (snd a) (snd b)) es1 es2 -> map fst es1 = map fst es2.
+Proof. intros H. induction H as [|a b l1 l2 [Hk _] _ IH]; simpl; [reflexivity|]. rewrite Hk, IH. reflexivity. Qed.
+
+Lemma present_F2 es1 es2 k :
+  Forall2 (fun a b : bytes * jdoc => fst a = fst b /\ jperm (snd a) (snd b)) es1 es2 ->
+  match present es1 k, present es2 k with
+  | None, None => True
+  | Some x1, Some x2 => jperm x1 x2
+  | _, _ => False
+  end.
+Proof.
+  intros H. induction H as [|[k1 x1] [k2 x2] l1 l2 [Hk Hj] _ IH]; [exact I|]. simpl in Hk, Hj. subst k2.
+  rewrite !present_cons. destruct (bytes_eqb k k1); [|exact IH].
+  rewrite <- (jperm_null _ _ Hj). destruct (is_null x1); [exact I|exact Hj].
+Qed.
+
+Section Bridges.
+  Variable e : env.
+  Variable parseF : nat -> bytes -> option N.
+  Notation well_shaped := (well_shaped e parseF).
+
+  Lemma sim_refl : forall fuel t d, well_shaped fuel t d -> sim e fuel t d d.
+  Proof.
+    intros [|f] t d Hws; [contradiction|]. cbn [MissingProofs.well_shaped sim] in *.
+    destruct t as [p|syms|sz|n|t'|t']; simpl; try reflexivity.
+    - simpl in Hws. destruct (lookup e n) as [[incs fs|nullable ms]|]; [| |reflexivity].
+      + destruct Hws as [es [He [Hnd _]]]. exists es. split; [exact He|]. split; [exact Hnd|].
+        intros fd _. rewrite (obj_entries_of d es He). unfold opt_rel. destruct (present es (f_name fd)); auto.
+      + destruct Hws as [es [He _]]. exists es, es. split; [exact He|]. rewrite (obj_entries_of d es He). split; [|reflexivity].
+        clear. induction es as [|a es IH]; constructor; [|exact IH]. split; [reflexivity|]. split; [reflexivity|]. auto.
+    - destruct d; try reflexivity. apply Forall2_refl_or.
+    - destruct d; try reflexivity. exists entries. split; [|reflexivity].
+      clear. induction entries as [|a es IH]; constructor; [|exact IH]. split; [reflexivity|]. split; [reflexivity|]. auto.
+  Qed.
+
+  Lemma jprim_obj p es : jprim parseF p (JObj es) = Err EDeser.
+  Proof. destruct p; reflexivity. Qed.
+  Lemma jprim_arr p l : jprim parseF p (JArr l) = Err EDeser.
+  Proof. destruct p; reflexivity. Qed.
+
+  Theorem jperm_sim : forall fuel t d1 d2, well_shaped fuel t d1 -> jperm d1 d2 -> sim e fuel t d1 d2.
+  Proof.
+    induction fuel as [|f IH]; intros t d1 d2 Hws Hj; [contradiction|].
+    inversion Hj as [d|l1 l2 HF|es1 es2' es2 HF HP]; subst.
+    - apply sim_refl. exact Hws.
+    - (* arrays *)
+      cbn [MissingProofs.well_shaped sim] in *. destruct t as [p|syms|sz|n|t'|t']; simpl in Hws |- *.
+      + destruct Hws as [v Hv]. rewrite jprim_arr in Hv. discriminate.
+      + destruct Hws as [s Hs]. discriminate.
+      + destruct Hws as [b [Hb _]]. discriminate.
+      + destruct (lookup e n) as [[incs fs|nullable ms]|]; [| |contradiction].
+        * destruct Hws as [es [He _]]. discriminate.
+        * destruct Hws as [es [He _]]. discriminate.
+      + rewrite Forall_forall in Hws. apply (Forall2_impl_in _ _ _ _ HF). intros a b Hin Hab. right. apply IH; [apply Hws; exact Hin|exact Hab].
+      + contradiction.
+    - (* objects *)
+      cbn [MissingProofs.well_shaped sim] in *. destruct t as [p|syms|sz|n|t'|t']; simpl in Hws |- *.
+      + destruct Hws as [v Hv]. rewrite jprim_obj in Hv. discriminate.
+      + destruct Hws as [s Hs]. discriminate.
+      + destruct Hws as [b [Hb _]]. discriminate.
+      + destruct (lookup e n) as [[incs fs|nullable ms]|] eqn:El; [| |contradiction].
+        * (* record *)
+          destruct Hws as [es [He [Hnd HW]]]. simpl in He. injection He as <-. rewrite Forall_forall in HW.
+          assert (Hnd' : NoDup (map fst es2')) by (rewrite <- (jperm_pairs_keys _ _ HF); exact Hnd).
+          exists es2. split; [reflexivity|]. split; [apply (Permutation_NoDup (Permutation_map fst HP)); exact Hnd'|].
+          intros fd Hin. rewrite <- (present_perm es2' es2 (f_name fd) Hnd' HP).
+          pose proof (present_F2 es1 es2' (f_name fd) HF) as Hp. specialize (HW fd Hin). unfold opt_rel.
+          destruct (present es1 (f_name fd)) as [x1|], (present es2' (f_name fd)) as [x2|]; try contradiction; [|exact I].
+          right. apply IH; assumption.
+        * (* union *)
+          destruct Hws as [es [He [Hnd HU]]]. simpl in He. injection He as <-.
+          exists es2', es2. split; [reflexivity|]. split; [|exact HP].
+          assert (Hall : forall a, In a es1 -> is_null (snd a) = false ->
+                           forall mt, assoc_ty (fst a) ms = Some mt -> well_shaped f mt (snd a)).
+          { intros a Hin Hn mt Ha. unfold ws_union in HU.
+            assert (Hf : In a (filter (fun kx => negb (is_null (snd kx))) es1)) by (apply filter_In; split; [exact Hin|rewrite Hn; reflexivity]).
+            destruct (filter (fun kx => negb (is_null (snd kx))) es1) as [|kx [|kx' rest]]; [contradiction| |contradiction].
+            destruct Hf as [<-|[]]. destruct HU as [mt0 [Ha0 Hw0]]. rewrite Ha in Ha0. injection Ha0 as <-. exact Hw0. }
+          apply (Forall2_impl_in _ _ _ _ HF). intros a b Hin [Hk Hab]. split; [exact Hk|]. split; [apply jperm_null; exact Hab|].
+          intros Hn. right. intros mt Ha. apply IH; [apply (Hall a Hin Hn mt Ha)|exact Hab].
+      + contradiction.
+      + destruct Hws as [Hnd HW]. exists es2'. split; [|exact HP]. rewrite Forall_forall in HW.
+        apply (Forall2_impl_in _ _ _ _ HF). intros a b Hin [Hk Hab]. split; [exact Hk|]. split; [apply jperm_null; exact Hab|].
+        intros Hn. right. apply IH; [apply (HW a Hin Hn)|exact Hab].
+  Qed.
+
+  Lemma jperm_keys_nonempty d1 d2 : jperm d1 d2 -> keys_nonempty (entries_of d1) -> keys_nonempty (entries_of d2).
+  Proof.
+    intros Hj Hk. inversion Hj as [d|l1 l2 HF|es1 es2' es2 HF HP]; subst; [exact Hk|constructor|]. simpl in *.
+    unfold keys_nonempty in *. apply (Permutation_Forall HP).
+    clear HP Hj. induction HF as [|a b l1 l2 [Hab _] _ IH]; [constructor|]. inversion Hk as [|? ? Ha Hl]; subst.
+    constructor; [|apply IH; exact Hl]. intros E. apply Ha. transitivity (fst b); [exact Hab|exact E].
+  Qed.
+
+  Variables (wildcard : bytes) (ignore : nat).
+  Hypothesis Hwf : wf_schema e.
+  Notation decJ := (decJ e wildcard ps_empty ignore parseF).
+
+  (* order_independent *)
+  Theorem order_independent : forall fuel top t d1 d2 tr,
+    well_shaped fuel t d1 -> jperm d1 d2 ->
+    t_scope tr <> [SKey []] -> (t_scope tr = [] -> keys_nonempty (entries_of d1)) ->
+    exists v tr1 tr2,
+      decJ fuel top t d1 tr = Ok (v, tr1) /\ decJ fuel top t d2 tr = Ok (v, tr2) /\
+      t_scope tr1 = t_scope tr2 /\ Permutation (t_missing tr1) (t_missing tr2) /\
+      sort_bytes (t_missing tr1) = sort_bytes (t_missing tr2).
+  Proof.
+    intros fuel top t d1 d2 tr Hws Hj Hsc Hk.
+    apply (same_content_same_result e wildcard ignore parseF Hwf fuel top t d1 d2 tr Hws (jperm_sim fuel t d1 d2 Hws Hj) Hsc Hk).
+    intros E. apply (jperm_keys_nonempty d1 d2 Hj). exact (Hk E).
+  Qed.
+
+  (* unknown_fields_skipped: one more entry, of any shape, under a key that is not a field of the record (own or inherited) *)
+  Lemma unknown_field_sim n incs fs f l1 l2 k x :
+    lookup e n = Some (DRecord incs fs) -> field_of e n k = None -> ~ In k (map fst (l1 ++ l2)) ->
+    well_shaped (S f) (TRef n) (JObj (l1 ++ l2)) ->
+    sim e (S f) (TRef n) (JObj (l1 ++ l2)) (JObj (l1 ++ (k, x) :: l2)).
+  Proof.
+    intros Hn Hk Hnew Hws. cbn [MissingProofs.well_shaped sim] in *. simpl in Hws |- *. rewrite Hn in *.
+    destruct Hws as [es [He [Hnd HW]]]. simpl in He. injection He as <-.
+    exists (l1 ++ (k, x) :: l2). split; [reflexivity|]. split.
+    - apply (Permutation_NoDup (l := k :: map fst (l1 ++ l2))); [|constructor; assumption].
+      rewrite !map_app. simpl. apply Permutation_middle.
+    - intros fd Hin. rewrite present_insert.
+      + unfold opt_rel. destruct (present (l1 ++ l2) (f_name fd)); auto.
+      + intros E. rewrite field_of_eq in Hk. pose proof (proj1 (find_none_iff _ _) Hk fd Hin) as Hf. unfold keyp in Hf.
+        rewrite <- E, bytes_eqb_refl in Hf. discriminate.
+  Qed.
+
+  Theorem unknown_fields_skipped : forall n incs fs f top l1 l2 k x tr,
+    lookup e n = Some (DRecord incs fs) -> field_of e n k = None -> ~ In k (map fst (l1 ++ l2)) ->
+    well_shaped (S f) (TRef n) (JObj (l1 ++ l2)) ->
+    t_scope tr <> [SKey []] -> (t_scope tr = [] -> keys_nonempty (l1 ++ l2) /\ k <> []) ->
+    exists v tr1 tr2,
+      decJ (S f) top (TRef n) (JObj (l1 ++ l2)) tr = Ok (v, tr1) /\
+      decJ (S f) top (TRef n) (JObj (l1 ++ (k, x) :: l2)) tr = Ok (v, tr2) /\
+      t_scope tr1 = t_scope tr2 /\ Permutation (t_missing tr1) (t_missing tr2) /\
+      sort_bytes (t_missing tr1) = sort_bytes (t_missing tr2).
+  Proof.
+    intros n incs fs f top l1 l2 k x tr Hn Hk Hnew Hws Hsc Hke.
+    apply (same_content_same_result e wildcard ignore parseF Hwf (S f) top (TRef n) _ _ tr Hws
+             (unknown_field_sim n incs fs f l1 l2 k x Hn Hk Hnew Hws) Hsc).
+    - intros E. exact (proj1 (Hke E)).
+    - intros E. destruct (Hke E) as [H1 H2]. simpl. unfold keys_nonempty in *. apply Forall_app in H1 as [A B].
+      apply Forall_app. split; [exact A|]. constructor; [exact H2|exact B].
+  Qed.
+End Bridges.
+
+(* ---------------------------------------------------------------------------------------------------------------------------
+   J. the two places where the unrestricted statement fails, with witnesses (replayed on the implementation)
+   --------------------------------------------------------------------------------------------------------------------------- *)
+From Coq.Strings Require Import String.
+Local Open Scope string_scope.
+
+(* [missing_exact] without "t is a record" *)
+Definition missing_exact_full : Prop :=
+  forall e wildcard ignore parseF, wf_schema e ->
+  forall fuel t data jd, top_ok data jd -> well_shaped e parseF fuel t jd ->
+    decode_json e wildcard ps_empty ignore parseF fuel t data =
+    match missing_spec e fuel t jd [] with
+    | [] => DOk (decode_spec e wildcard ignore parseF fuel false t jd)
+    | ms => DMissing (sort_bytes ms) (decode_spec e wildcard ignore parseF fuel true t jd)
+    end.
+
+(* [decJ_exact] without the restriction on the lone empty key: the recorded paths are the scope strings of the fields *)
+Definition paths_exact_full : Prop :=
+  forall e wildcard ignore parseF, wf_schema e ->
+  forall fuel top t d tr v tr', well_shaped e parseF fuel t d ->
+    decJ e wildcard ps_empty ignore parseF fuel top t d tr = Ok (v, tr') ->
+    Permutation (t_missing tr') (t_missing tr ++ missing_spec e fuel t d (t_scope tr))%list.
+
+Definition c06_b (s : string) : bytes := list_byte_of_string s.
+Definition c06_fld (nm : string) (t : ty) (o : optionality) : field := {| f_name := c06_b nm; f_ty := t; f_opt := o |}.
+(* 0: Inner { a : int; b : string?; c : int = 7 }
+   1: Outer includes Inner { x : Inner; l : array[Inner]; m : map[Inner]?; u : U? }
+   2: U = union [ t.Inner : Inner, int ] *)
+Definition c06_env : env :=
+  [ DRecord [] [ c06_fld "a" (TPrim PInt) Required; c06_fld "b" (TPrim PString) Optional;
+                 c06_fld "c" (TPrim PInt) (Default (c06_b "7")) ];
+    DRecord [0] [ c06_fld "x" (TRef 0) Required; c06_fld "l" (TArray (TRef 0)) Required; c06_fld "m" (TMap (TRef 0)) Optional;
+                  c06_fld "u" (TRef 2) Optional ];
+    DUnion false [ (c06_b "t.Inner", TRef 0); (c06_b "int", TPrim PInt) ] ].
+Definition c06_pf : nat -> bytes -> option N := fun _ _ => None.
+Definition c06_star : bytes := c06_b "*".
+Definition c06_json (s : string) : jdoc := match parse_json (c06_b s) with Some j => j | None => JNull end.
+
+Ltac c06_nd := repeat (constructor; [simpl; intuition discriminate|]); try constructor.
+Ltac c06_ws :=
+  repeat first
+    [ progress simpl
+    | match goal with
+      | |- exists _, _ => eexists
+      | |- _ /\ _ => split
+      | |- NoDup _ => simpl; c06_nd
+      | |- Forall _ _ => constructor
+      | |- _ = _ => reflexivity
+      | |- True => exact I
+      | |- _ -> _ => intro
+      | |- ws_union _ _ _ _ => unfold ws_union; simpl
+      | |- match present ?a ?b with _ => _ end =>
+          let v := eval vm_compute in (present a b) in change (present a b) with v; cbv iota beta
+      end ].
+
+Lemma c06_wf : wf_schema c06_env.
+Proof.
+  intros n incs fs H. destruct n as [|[|[|n]]]; simpl in H; try discriminate; [| |destruct n; discriminate];
+    (split; [reflexivity|]); vm_compute; c06_nd.
+Qed.
+
+(* a document exercising every position: unknown field of array shape, array with a null element, map with a null entry, union,
+   inherited required field, optional and defaulted fields absent *)
+Definition c06_text : string :=
+  "{""zz"":[1,{""q"":null}],""l"":[{""a"":1},null,{""c"":3}],""b"":""s"",""m"":{""k"":{},""n"":null},""u"":{""t.Inner"":{""b"":""x""}}}".
+Definition c06_doc : jdoc := Eval vm_compute in c06_json c06_text.
+
+Lemma c06_doc_ws : well_shaped c06_env c06_pf 8 (TRef 1) c06_doc.
+Proof. unfold c06_doc. c06_ws. Qed.
+
+Lemma c06_doc_top : top_ok (c06_b c06_text) c06_doc.
+Proof.
+  split; [discriminate|]. split; [reflexivity|]. split; [reflexivity|]. unfold c06_doc. simpl.
+  repeat (constructor; [discriminate|]). constructor.
+Qed.
+
+Lemma missing_exact_example :
+  decode_json c06_env c06_star ps_empty 0 c06_pf 8 (TRef 1) (c06_b c06_text)
+  = DMissing (map c06_b ["a"; "l[1].a"; "l[2].a"; "m.k.a"; "u.t.Inner.a"; "x"])
+      (VRec [VRec [] [Some (VInt 0); Some (VStr (c06_b "s")); None]]
+         [Some (VRec [] [Some (VInt 0); None; None]);
+          Some (VArr [VRec [] [Some (VInt 1); None; Some (VInt 7)]; VRec [] [Some (VInt 0); None; Some (VInt 7)];
+                      VRec [] [Some (VInt 0); None; Some (VInt 3)]]);
+          Some (VMap [(c06_b "k", VRec [] [Some (VInt 0); None; Some (VInt 7)])]);
+          Some (VUnion [Some (VRec [] [Some (VInt 0); Some (VStr (c06_b "x")); Some (VInt 7)]); None])])
+  /\ sort_bytes (missing_spec c06_env 8 (TRef 1) c06_doc []) = map c06_b ["a"; "l[1].a"; "l[2].a"; "m.k.a"; "u.t.Inner.a"; "x"].
+Proof. vm_compute. split; reflexivity. Qed.
+
+(* D33: an array (or a union) at the start of the input whose nested record lacks a required field returns no error *)
+Lemma top_level_non_record_witness :
+  decode_json c06_env c06_star ps_empty 0 c06_pf 8 (TArray (TRef 0)) (c06_b "[{},{""a"":1}]")
+  = DOk (VArr [VRec [] [Some (VInt 0); None; Some (VInt 7)]; VRec [] [Some (VInt 1); None; Some (VInt 7)]])
+  /\ missing_spec c06_env 8 (TArray (TRef 0)) (c06_json "[{},{""a"":1}]") [] = [c06_b "[0].a"]
+  /\ decode_json c06_env c06_star ps_empty 0 c06_pf 8 (TRef 2) (c06_b "{""t.Inner"":{}}")
+     = DOk (VUnion [Some (VRec [] [Some (VInt 0); None; Some (VInt 7)]); None])
+  /\ missing_spec c06_env 8 (TRef 2) (c06_json "{""t.Inner"":{}}") [] = [c06_b "t.Inner.a"].
+Proof. vm_compute. repeat split; reflexivity. Qed.
+
+Theorem missing_exact_full_refuted : ~ missing_exact_full.
+Proof.
+  intros H.
+  specialize (H c06_env c06_star 0 c06_pf c06_wf 8 (TArray (TRef 0)) (c06_b "[{},{""a"":1}]")
+                (JArr [JObj []; JObj [(c06_b "a", JNum (c06_b "1"))]])).
+  assert (Ht : top_ok (c06_b "[{},{""a"":1}]") (JArr [JObj []; JObj [(c06_b "a", JNum (c06_b "1"))]])).
+  { split; [discriminate|]. split; [reflexivity|]. split; [reflexivity|]. constructor. }
+  assert (Hw : well_shaped c06_env c06_pf 8 (TArray (TRef 0)) (JArr [JObj []; JObj [(c06_b "a", JNum (c06_b "1"))]])) by c06_ws.
+  specialize (H Ht Hw). vm_compute in H. discriminate.
+Qed.
+
+(* the lone empty key: below the entry "" of a map at the start of the input the dot is dropped ("a", not ".a") *)
+Lemma empty_key_witness :
+  decJ c06_env c06_star ps_empty 0 c06_pf 8 true (TMap (TRef 0)) (JObj [([], JObj [])]) tracker0
+  = Ok (VMap [([], VRec [] [Some (VInt 0); None; Some (VInt 7)])], {| t_scope := []; t_missing := [c06_b "a"] |})
+  /\ missing_spec c06_env 8 (TMap (TRef 0)) (JObj [([], JObj [])]) [] = [c06_b ".a"].
+Proof. vm_compute. split; reflexivity. Qed.
+
+Theorem paths_exact_full_refuted : ~ paths_exact_full.
+Proof.
+  intros H.
+  assert (Hw : well_shaped c06_env c06_pf 8 (TMap (TRef 0)) (JObj [([], JObj [])])) by c06_ws.
+  specialize (H c06_env c06_star 0 c06_pf c06_wf 8 true (TMap (TRef 0)) (JObj [([], JObj [])]) tracker0 _ _ Hw
+                (proj1 empty_key_witness)).
+  vm_compute in H. apply Permutation_length_1_inv in H. discriminate.
+Qed.
+
+(* non-vacuity: the hypotheses of the theorems are satisfiable together, on a document where six fields are missing at five
+   different kinds of position; reordering its keys at two depths and dropping its unknown field changes nothing *)
+Definition c06_text_perm : string :=
+  "{""u"":{""t.Inner"":{""b"":""x""}},""m"":{""n"":null,""k"":{}},""b"":""s"",""l"":[{""a"":1},null,{""c"":3}]}".
+
+Lemma c06_nonvacuous :
+  wf_schema c06_env /\ is_record c06_env (TRef 1) = true /\ top_ok (c06_b c06_text) c06_doc /\
+  well_shaped c06_env c06_pf 8 (TRef 1) c06_doc /\
+  sort_bytes (missing_spec c06_env 8 (TRef 1) c06_doc []) = map c06_b ["a"; "l[1].a"; "l[2].a"; "m.k.a"; "u.t.Inner.a"; "x"] /\
+  (exists fs v, decode_json c06_env c06_star ps_empty 0 c06_pf 8 (TRef 1) (c06_b c06_text) = DMissing fs v /\
+                fs = map c06_b ["a"; "l[1].a"; "l[2].a"; "m.k.a"; "u.t.Inner.a"; "x"]) /\
+  decode_json c06_env c06_star ps_empty 0 c06_pf 8 (TRef 1) (c06_b c06_text_perm)
+  = decode_json c06_env c06_star ps_empty 0 c06_pf 8 (TRef 1) (c06_b c06_text).
+Proof.
+  split; [exact c06_wf|]. split; [reflexivity|]. split; [exact c06_doc_top|]. split; [exact c06_doc_ws|].
+  split; [exact (proj2 missing_exact_example)|]. split; [|vm_compute; reflexivity].
+  eexists. eexists. split; [exact (proj1 missing_exact_example)|reflexivity].
+Qed.
